@@ -1,210 +1,281 @@
 """C14 - unevaluated expressions obey substitution, equality and folding laws.
 
-Decides (structurally): R-SHALLOW on the reconstruction hooks installed by the
-decorator, R-ARITY on every ``... = self.args`` unpacking, the hash/equality hook,
-the conditional installation of the substitution hooks, R-ONEDEF for classes that
-both unfold and print themselves.
+The rules about the machinery that ``@unevaluated`` installs (R-HOOKS, R-HASH, R-INJECTIVE, R-SHALLOW,
+R-COMPLETE, R-DESCEND, R-PROPAGATE, R-ARGORDER, R-REBUILD) are decided on a MODEL: the decorator itself is
+interpreted (``sa/rules.object_exec``; nothing of the package is imported or run) on model classes with a few
+dataclass fields, which yields the hooks it installs for which kind of class; every hook is then interpreted
+on model instances and its result compared with what the specification says for the same instance.  How the
+decorator and its hooks are spelt - helper functions, loops or comprehensions, guard clauses, try/except,
+keyword or positional calls, wrapper objects - is invisible to these rules; code outside the interpreted
+subset is an ANALYSIS-ERROR, never a violation.  The rules about the expression classes themselves (R-ARITY,
+R-ONEDEF, R-FIELD, R-PREC) read the methods through reaching definitions and helper inlining.
 """
 
 from __future__ import annotations
 
 import ast
+import itertools
 
-from ..exprmodel import IMPLEMENT_NEW, expression_classes, handwritten_expr_classes, installed_hooks
+from ..exprmodel import IMPLEMENT_NEW, UNEVALUATED, expression_classes, handwritten_expr_classes
 from ..loader import AnalysisError, Tree, unparse, walk_function
 from ..report import Check
 from ..rules import (
     DEEP_SOURCES,
     MObj,
-    ModelExec,
+    ModelError,
     ModelRaise,
-    argument_sources,
-    check_arity,
-    reach_functions,
+    MRef,
+    _FuncRef,
+    args_index_reads,
+    args_star_calls,
+    interpret_printer,
+    object_exec,
     self_args_unpackings,
 )
 
 PID = "C14"
 MIN_CLASSES = 30  # 35 decorated classes on the pinned tree
-MIN_UNPACK = 14  # 16 unpack sites in decorated classes on the pinned tree
-MIN_NESTED = 8  # nested expression-class constructions (non-vacuity of R-SHALLOW)
+MIN_UNPACK = 8  # positional uses of `self.args` in decorated classes (16 unpackings on the pinned tree): non-vacuity only
+MIN_NESTED = 4  # nested expression-class constructions (non-vacuity of R-SHALLOW; 8+ on the pinned tree)
+
+_MOD = "ampform.sympy._decorator"
+_MISSING = MRef("dataclasses.MISSING")
+_FREE_SYMBOL_VIEWS = ("free_symbols", "atoms", "has", "find")
 
 
-def check_shallow_hooks(ctx: Check, tree: Tree, hook_names: list[str], need_complete: bool) -> None:
-    """R-SHALLOW: the hooks must take the instance's arguments from a shallow and
-    complete source."""
-    hooks = installed_hooks(tree)
-    impl = tree.func(IMPLEMENT_NEW)
-    for attr in hook_names:
-        if attr not in hooks:
-            if attr in {"_eval_subs", "_xreplace"}:
-                ctx.violation(
-                    "R-HOOKS",
-                    f"{IMPLEMENT_NEW}::missing hook {attr}",
-                    tree.loc(impl.node),
-                    f"_implement_new_method installs no {attr}: Basic.{attr} rebuilds with self.func(*self.args) and loses non-SymPy attributes",
-                )
-            else:
-                raise AnalysisError(f"vanished anchor: hook {attr} is not installed by _implement_new_method")
-            continue
-        value, _cond, resolved = hooks[attr]
-        where = tree.loc(value)
-        what = f"cls.{attr} = {unparse(value)}"
-        if resolved in DEEP_SOURCES:
-            ctx.violation(
-                "R-SHALLOW",
-                f"{IMPLEMENT_NEW}::cls.{attr}->{resolved}",
-                where,
-                f"{what}  (resolves to {resolved})",
-                {"deep_source": resolved, "why": DEEP_SOURCES[resolved], "path": [IMPLEMENT_NEW, resolved]},
-            )
-            continue
-        if resolved is None or resolved not in tree.funcs:
-            raise AnalysisError(f"hook {attr} = {unparse(value)} cannot be resolved to a function ({resolved})")
-        bad = False
-        sources = []
-        for fn, path in reach_functions(tree, tree.funcs[resolved], depth=3):
-            for src in argument_sources(tree, fn):
-                sources.append((src, fn, path))
-        for src, fn, path in sources:
-            if src["kind"] == "deep":
-                bad = True
-                ctx.violation(
-                    "R-SHALLOW",
-                    f"{IMPLEMENT_NEW}::cls.{attr}->{src['callee']}",
-                    tree.loc(src["node"]),
-                    f"{what}: {fn.qual} reads the arguments with {unparse(src['node'])} (= {src['callee']})",
-                    {"deep_source": src["callee"], "why": DEEP_SOURCES[src["callee"]], "path": list(path)},
-                )
-        for src, fn, path in sources:
-            if src["kind"] == "getter-arity":
-                bad = True
-                from ..exprmodel import expression_classes
+# ---------------------------------------------------------------------------- the decorator on a model
+class DecoratorWorld:
+    """``@unevaluated`` interpreted on model classes.
 
-                single = sorted(c.qual.split("::")[-1] for c in expression_classes(tree).values() if len(c.fields) == 1)
-                ctx.violation(
-                    "R-SHALLOW",
-                    f"{IMPLEMENT_NEW}::cls.{attr}->{src['callee']}::arity",
-                    tree.loc(src["node"]),
-                    f"{what}: {fn.qual} reads the fields with {unparse(src['node'])[:70]} - for a class with ONE field that is the bare value, not a 1-tuple",
-                    {"why": "the hooks rebuild with cls(*arguments): a bare expression is unpacked (or fails to)", "one_field_classes": single[:8], "n_one_field_classes": len(single), "path": list(path)},
-                )
-        if bad:
-            continue
-        shallow = [s for s in sources if s[0]["kind"] in {"args", "fields"}]
-        if not shallow:
-            raise AnalysisError(
-                f"hook {attr} -> {resolved}: no recognised source of the instance's arguments (shape outside the rule's grammar)"
-            )
-        if need_complete:
-            complete = [s for s in shallow if s[0]["kind"] == "fields" and not s[0]["filtered"]]
-            if not complete:
-                src, fn, _ = shallow[0]
-                ctx.violation(
-                    "R-COMPLETE",
-                    f"{IMPLEMENT_NEW}::cls.{attr}::incomplete",
-                    tree.loc(src["node"]),
-                    f"{what}: arguments read from {unparse(src['node'])[:80]} omit the non-SymPy fields, but the object is rebuilt with all fields",
-                )
-                continue
-        ctx.ok("R-SHALLOW", where, f"{what}: shallow source {unparse(shallow[0][0]['node'])[:70]} in {shallow[0][1].qual}")
+    ``model_class(sympify)`` builds a class object with one dataclass field per entry of ``sympify`` (True: a SymPy
+    argument, False: ``argument(sympify=False)``), runs the decorator on it and returns it; ``installed`` of the
+    class are the attributes the decorator set (``__new__``, ``__getnewargs__``, ``_hashable_content``, ``_eval_subs``,
+    ``_xreplace``, ``doit``, ...), as callables of the interpreter."""
+
+    _worlds: dict[int, "DecoratorWorld"] = {}
+
+    @classmethod
+    def of(cls, tree: Tree) -> "DecoratorWorld":
+        w = cls._worlds.get(id(tree))
+        if w is None or w.tree is not tree:
+            w = cls._worlds[id(tree)] = DecoratorWorld(tree)
+        return w
+
+    def __init__(self, tree: Tree) -> None:
+        self.tree = tree
+        self.dec = tree.func(UNEVALUATED)
+        self._classes: dict[tuple, MObj] = {}
+        self.cache: dict = {}  # results of the model runs shared by several rules
+        self.notes: list[tuple] = []  # what the models of astuple / deepcopy / attrgetter observed (shared by all interpreters of this world)
+        self.names: dict[int, str] = {}  # id of an external callable that the decorator installed -> its dotted name
+        self.type_marker = MObj("type(self)")
+
+    # -- models of the SymPy entry points the decorator machinery calls
+    @staticmethod
+    def externals() -> dict:
+        def expr_new(a, k):
+            if not a:
+                raise ModelRaise("TypeError", "Expr.__new__ needs the class")
+            return MObj("new expression", {"__class__": a[0], "args": tuple(a[1:]), "_args": tuple(a[1:]), "__hints__": dict(k)}, kinds={"expr"}, open=False)
+
+        ident = lambda a, k: a[0]  # noqa: E731 - sympify of a model value is the value
+        out = {n: expr_new for n in ("sympy.Expr.__new__", "sympy.Basic.__new__", "sympy.core.expr.Expr.__new__", "sympy.core.basic.Basic.__new__")}
+        out.update({n: ident for n in ("sympy.sympify", "sympy.core.sympify.sympify", "sympy.core.sympify._sympify", "sympy._sympify", "sympy.S")})
+        return out
+
+    def exec(self, intercept=None, externals: dict | None = None):
+        ex = object_exec(self.tree, {**self.externals(), **(externals or {})}, intercept)
+        ex.notes = self.notes  # a callable installed by one interpreter may be applied by another: one common record
+        ex.mark = len(self.notes)
+        return ex
+
+    def notes_since(self, ex) -> list[tuple]:
+        return self.notes[ex.mark:]
+
+    def model_class(self, sympify: tuple[bool, ...], defaults: tuple = (), extra: tuple = ()) -> MObj:
+        key = (tuple(sympify), tuple(id(d) for d in defaults), tuple(k for k, _ in extra))
+        if key in self._classes:
+            return self._classes[key]
+        fields = []
+        for i, s in enumerate(sympify):
+            default = defaults[i] if i < len(defaults) and defaults[i] is not None else _MISSING
+            fields.append(MObj(f"field a{i}", {"name": f"a{i}", "metadata": ({} if s else {"sympify": False}), "default": default, "default_factory": _MISSING, "init": True, "kw_only": False,
+                                               "type": "Any", "repr": True, "hash": None, "compare": True},
+                               kinds={"Field", "dataclasses.Field"}, open=False))
+        sig = "".join("s" if s else "n" for s in sympify) or "-"
+        cls = MObj(f"model class <{sig}>", {
+            "__dataclass_fields__": {f.attrs["name"]: f for f in fields}, "__name__": "Model", "__qualname__": "Model", "__module__": "model", "__qual__": "model::Model",
+            "__new__": MRef("sympy.Expr.__new__"), "doit": MRef("sympy.Basic.doit"), "__annotations__": {f"a{i}": "Any" for i in range(len(sympify))},
+            "evaluate": lambda a, k: MObj("self.evaluate()", {"doit": lambda a2, k2: MObj("self.evaluate().doit()", kinds={"expr"})}, kinds={"expr"}),
+            **dict(extra),
+        }, kinds={"class"}, open=False)
+        before = dict(cls.attrs)
+        ex = self.exec()
+        try:
+            out = ex.run(self.dec, [cls])
+        except ModelRaise as exc:
+            raise AnalysisError(f"{self.dec.qual}: raises {exc} on a model class with the fields <{sig}>") from None
+        if out is not cls:
+            raise AnalysisError(f"{self.dec.qual}(cls) returns {out!r} on the model, not the class it decorates (outside the rule's model)")
+        cls.installed = {k: v for k, v in cls.attrs.items() if k not in before or before[k] is not v}  # type: ignore[attr-defined]
+        for v in cls.installed.values():  # type: ignore[attr-defined]
+            if callable(v) and not isinstance(v, (MObj, _FuncRef)):
+                self.names[id(v)] = next((n for n, f in ex.externals.items() if f is v), repr(v))
+        cls.sympify = tuple(sympify)  # type: ignore[attr-defined]
+        self._classes[key] = cls
+        return cls
+
+    def hook(self, sympify: tuple[bool, ...], attr: str):
+        return self.model_class(sympify).installed.get(attr)  # type: ignore[attr-defined]
+
+    def describe(self, f) -> tuple[str, str]:
+        """(stable name, location) of an installed callable."""
+        if isinstance(f, _FuncRef):
+            if f.fn is not None:
+                return f.fn.qual, self.tree.loc(f.fn.node)
+            scope = f.scope.qual if f.scope is not None else "<closure>"
+            return f"{scope}.{getattr(f.node, 'name', '<lambda>')}", self.tree.loc(f.node) if hasattr(f.node, "lineno") and getattr(f.node, "_module", None) is not None else self.tree.loc(self.dec.node)
+        if isinstance(f, MRef):
+            return f.name, self.tree.loc(self.dec.node)
+        return self.names.get(id(f), repr(f)), self.tree.loc(self.dec.node)
 
 
-def check_precedence(ctx: Check, tree: Tree, prefixes: tuple[str, ...]) -> int:
-    """R-PREC over the printer methods of the given modules."""
-    from ..rules import precedence_hazards, printer_methods
+def _interpret(what: str, run):
+    """Run one interpretation: a raised exception of the interpreted code is an outcome, a gap of the interpreter
+    (ModelError, or any failure inside it) is an ANALYSIS-ERROR."""
+    try:
+        return run()
+    except ModelRaise as exc:
+        return ("raises", str(exc))
+    except ModelError:
+        raise
+    except RecursionError:
+        raise ModelError(f"{what}: recursion too deep in the model interpreter") from None
+    except AnalysisError:
+        raise
+    except Exception as exc:  # noqa: BLE001 - a failure of the interpreter must never look like a verdict
+        raise ModelError(f"{what}: the model interpreter failed: {type(exc).__name__}: {exc}") from exc
 
-    n = 0
-    for fn in sorted(printer_methods(tree), key=lambda f: f.qual):
-        if not fn.qual.startswith(prefixes):
-            continue
-        n += 1
-        hz = precedence_hazards(tree, fn)
-        if hz:
-            hole, why = hz[0]
-            # key: the field of the class that the placeholder prints (not the name of the local that holds it)
-            label = unparse(hole)
-            try:
-                from ..rules import self_args_unpackings
-                from ..exprmodel import expression_classes
 
-                ec = expression_classes(tree).get(fn.cls.qual) if fn.cls is not None else None
-                if ec is not None and isinstance(hole, ast.Name):
-                    for _st, elts, _ in self_args_unpackings(fn):
-                        for e, f_ in zip(elts, [x.name for x in ec.sympy_fields]):
-                            if isinstance(e, ast.Name) and e.id == hole.id:
-                                label = f"field {f_}"
-                    # `x = printer._print(self.<field>)`: the same field reached by attribute
-                    from ..dataflow import RD as _RD
+ALL_SIGNATURES = [sig for n in range(4) for sig in itertools.product((True, False), repeat=n)]
 
-                    for d in _RD(fn.node).reaching(hole):
-                        v = d.value
-                        if isinstance(v, ast.Call) and v.args and isinstance(v.args[0], ast.Attribute) and isinstance(v.args[0].value, ast.Name) and v.args[0].value.id == "self" \
-                                and v.args[0].attr in {x.name for x in ec.fields}:
-                            label = f"field {v.args[0].attr}"
-            except Exception:  # noqa: BLE001
-                pass
-            ctx.violation("R-PREC", f"{fn.qual}::precedence::{label}", tree.loc(hole), f"{fn.qual}: {why}",
-                          "printer._print returns e.g. `a + b` for a sum without parentheses: `-{x}` / `{x}**2` / `{x} * c` then bind to the last term only, "
-                          "so the generated code of the folded form computes something else than the unfolded expression for compound arguments")
+
+def installed_by_model(tree: Tree) -> dict[str, dict[tuple, object]]:
+    """attr -> {field signature -> installed callable} for all model classes with up to three fields."""
+    world = DecoratorWorld.of(tree)
+    if "installed" not in world.cache:
+        table: dict[str, dict[tuple, object]] = {}
+        for sig in ALL_SIGNATURES:
+            for attr, v in world.model_class(sig).installed.items():  # type: ignore[attr-defined]
+                table.setdefault(attr, {})[sig] = v
+        world.cache["installed"] = table
+    return world.cache["installed"]
+
+
+def check_installed_hooks(ctx: Check, tree: Tree) -> None:
+    """R-HOOKS / R-HASH (installation): which hooks does the decorator install for which class?  Read off the model:
+    every class gets ``__new__``; every class with a non-SymPy field gets ``_hashable_content``, ``_eval_subs`` and
+    ``_xreplace`` (Basic's own versions rebuild with ``self.func(*self.args)`` and compare ``args`` only)."""
+    world = DecoratorWorld.of(tree)
+    table = installed_by_model(tree)
+    impl = tree.funcs.get(IMPLEMENT_NEW) or world.dec
+    where = tree.loc(impl.node)
+    if "__new__" not in table or len(table["__new__"]) != len(ALL_SIGNATURES):
+        raise AnalysisError("vanished anchor: @unevaluated installs no __new__ on the model classes")
+    with_nonsympy = [s for s in ALL_SIGNATURES if not all(s)]
+    sympy_only = [s for s in ALL_SIGNATURES if all(s)]
+    for attr in ("_eval_subs", "_xreplace"):
+        have = table.get(attr, {})
+        missing = [s for s in with_nonsympy if s not in have]
+        if not have:
+            ctx.violation("R-HOOKS", f"{IMPLEMENT_NEW}::missing hook {attr}", where,
+                          f"@unevaluated installs no {attr}: Basic.{attr} rebuilds with self.func(*self.args) and loses non-SymPy attributes")
+        elif missing:
+            ctx.violation("R-HOOKS", f"{IMPLEMENT_NEW}::cls.{attr}::guard", where,
+                          f"cls.{attr} is not installed for {len(missing)} of {len(with_nonsympy)} model classes with a non-SymPy field (e.g. fields <{_sig(missing[0])}>), "
+                          f"but for {sum(1 for s in sympy_only if s in have)} of {len(sympy_only)} classes without one")
         else:
-            ctx.ok("R-PREC", tree.loc(fn.node), f"{fn.qual}: no printed sub-expression sits unparenthesised next to a tighter-binding operator")
-    return n
+            name, loc = world.describe(next(iter(have.values())))
+            ctx.ok("R-HOOKS", loc, f"cls.{attr} = {name.split('::')[-1]} is installed for every model class with a non-SymPy field" + (" (and for the others)" if all(s in have for s in sympy_only) else ""))
+    have = table.get("_hashable_content", {})
+    key = f"{IMPLEMENT_NEW}::cls._hashable_content"
+    if not have:
+        ctx.violation("R-HASH", f"{IMPLEMENT_NEW}::missing _hashable_content", where, "no _hashable_content hook: equality and hash ignore the non-SymPy attributes")
+    elif any(s not in have for s in with_nonsympy):
+        missing = [s for s in with_nonsympy if s not in have]
+        ctx.violation("R-HASH", key + "::conditional", where, f"the _hashable_content hook is not installed for {len(missing)} of {len(with_nonsympy)} model classes with a non-SymPy field (e.g. <{_sig(missing[0])}>)")
+    else:
+        name, loc = world.describe(next(iter(have.values())))
+        ctx.ok("R-HASH", loc, f"cls._hashable_content = {name.split('::')[-1]} is installed for every class with a non-SymPy field")
+
+
+def _sig(sig: tuple[bool, ...]) -> str:
+    return ", ".join("SymPy" if s else "non-SymPy" for s in sig) or "no fields"
 
 
 # ---------------------------------------------------------------------------- the substitution hooks on a model
 #
 # R-DESCEND and R-PROPAGATE state what `_xreplace` / `_eval_subs` return for which instance and rule.  The
-# hooks are interpreted (sa/rules.py ModelExec; helper functions of the package are entered) on model
-# instances with up to three field values of every kind that matters - an expression that reports a
-# replacement, one that does not, an expression kept in a non-SymPy field, a plain attribute value that
-# is / is not a key of the rule, a class object that merely HAS the method - and compared with what the
-# specification returns for the same model.  How the loop is spelt does not matter.
-
-_MOD = "ampform.sympy._decorator"
-_FREE_SYMBOL_VIEWS = ("free_symbols", "atoms", "has", "find")
+# hooks are interpreted on model instances with up to three field values of every kind that matters - an
+# expression that reports a replacement, one that does not, an expression kept in a non-SymPy field, a plain
+# attribute value that is / is not a key of the rule, a class object that merely HAS the method - and compared
+# with what the specification returns for the same model.  How the loop is spelt does not matter.
 
 
 class _Scenario:
     """One model instance of an @unevaluated class together with a substitution request."""
 
-    def __init__(self, kinds: tuple[str, ...]) -> None:
+    def __init__(self, world: DecoratorWorld, kinds: tuple[str, ...]) -> None:
         self.kinds = kinds
         self.visits: dict[int, list] = {}
         self.values: list[MObj] = []
         self.results: dict[int, MObj] = {}
         self.bad_calls: list[str] = []
-        fields = []
+        self.rebuilds: list[tuple] = []
+        self.sympify = tuple(kind in {"expr-hit", "expr-miss"} for kind in kinds)
+        self.cls = world.model_class(self.sympify)
         for i, kind in enumerate(kinds):
-            sympify = kind in {"expr-hit", "expr-miss"}
-            fields.append(MObj(f"field a{i}", {"name": f"a{i}", "metadata": {"sympify": sympify}}, kinds={"Field"}))
             if kind.startswith("expr") or kind.startswith("attr-expr"):
+                # an expression: itself an instance of a dataclass (every @unevaluated class is one) and not iterable
                 v = MObj(f"a{i}: expression ({kind})", kinds={"expr"})
                 v.attrs["__lacks__"] = ()
+                v.attrs["__dataclass_fields__"] = {"x": MObj("field x", {"name": "x", "metadata": {}}, kinds={"Field"}, open=False)}
+                v.attrs["x"] = MObj(f"a{i}.x", kinds={"expr"}, open=False)
+                v.attrs["__iter__"] = _not_iterable
             elif kind.startswith("class"):
-                v = MObj(f"a{i}: class object ({kind})", kinds={"class"}, open=False)
+                v = MObj(f"a{i}: class object ({kind})", {"__iter__": _not_iterable}, kinds={"class"}, open=False)
             else:
-                v = MObj(f"a{i}: plain value ({kind})", kinds={"plain"}, open=False)
+                v = MObj(f"a{i}: plain value ({kind})", {"__iter__": _not_iterable}, kinds={"plain"}, open=False)
             self.values.append(v)
         self.me = MObj("self", kinds={"expr"})
         self.me.attrs.update({f"a{i}": v for i, v in enumerate(self.values)})
         self.me.attrs.update({
-            "__dataclass_fields__": fields,
-            "args": tuple(v for v, f in zip(self.values, fields) if f.attrs["metadata"]["sympify"]),
+            "__class__": self.cls,
+            "args": tuple(v for v, s in zip(self.values, self.sympify) if s),
             "func": self._rebuild,
             "is_Mul": False,
             "free_symbols": set(),
             "atoms": lambda a, k: set(),
             "has": lambda a, k: False,
             "find": lambda a, k: set(),
+            "__iter__": _not_iterable,
         })
+        self.me.attrs["_args"] = self.me.attrs["args"]
 
-    @staticmethod
-    def _rebuild(args, kwargs):
+    def _rebuild(self, args, kwargs):
+        self.rebuilds.append((tuple(args), dict(kwargs)))
         return MObj("self.func(" + ", ".join(map(repr, args)) + ")", {"__rebuilt__": (tuple(args), dict(kwargs)), "is_Mul": False}, kinds={"expr"})
 
     def describe(self) -> str:
         return "(" + ", ".join(self.kinds) + ")"
+
+
+def _key_error(key):
+    raise ModelRaise("KeyError", repr(key))
+
+
+def _not_iterable(a, k):
+    raise ModelRaise("TypeError", "the object is not iterable")
 
 
 def _same_object(got, want) -> bool:
@@ -227,8 +298,6 @@ def _show(v) -> str:
 
 
 def _xreplace_scenarios():
-    import itertools
-
     kinds = ("expr-hit", "expr-miss", "attr-expr-hit", "plain-in", "plain-out", "class-in", "class-out")
     outside = tuple(k for k in kinds if not k.endswith("-in"))
     for rule_kind in ("mapping", "mapping with self as key", "empty mapping", "not a Mapping"):
@@ -238,15 +307,18 @@ def _xreplace_scenarios():
                 yield rule_kind, combo
 
 
-def _run_xreplace(tree: Tree, fn, rule_kind: str, combo: tuple[str, ...]):
-    """(scenario, outcome, expected, arguments that had to be descended into)."""
-    sc = _Scenario(combo)
+def _run_xreplace(world: DecoratorWorld, rule_kind: str, combo: tuple[str, ...]):
+    """(scenario, executor, outcome, expected, arguments that had to be descended into) - None if the class has no hook."""
+    sc = _Scenario(world, combo)
+    hook = sc.cls.installed.get("_xreplace")  # type: ignore[attr-defined]
+    if hook is None:
+        return None
     keys = {v: MObj(f"rule[a{i}]") for i, (v, k) in enumerate(zip(sc.values, combo)) if k.endswith("-in")}
     dummy = MObj("some sub-expression (a key that is no free symbol)")
     if rule_kind == "empty mapping":
         rule: object = {}
     elif rule_kind == "not a Mapping":
-        rule = MObj("rule (not a Mapping)", {"__contains__": lambda a, k: a[0] in keys, "__getitem__": lambda a, k: keys[a[0]], "__bool__": lambda a, k: True,
+        rule = MObj("rule (not a Mapping)", {"__contains__": lambda a, k: a[0] in keys, "__getitem__": lambda a, k: keys[a[0]] if a[0] in keys else _key_error(a[0]), "__bool__": lambda a, k: True,
                                                 "__iter__": lambda a, k: [dummy, *keys], "__len__": lambda a, k: len(keys) + 1}, kinds={"rule"})
     else:
         rule = {dummy: MObj("its replacement"), **keys}
@@ -290,12 +362,9 @@ def _run_xreplace(tree: Tree, fn, rule_kind: str, combo: tuple[str, ...]):
                 flags.append(False)
         want = ((("rebuilt", results), True) if any(flags) else (sc.me, False))
         must_visit = [i for i, kind in enumerate(combo) if "expr" in kind]
-    ex = ModelExec(tree)
-    try:
-        got = ex.call_function(fn, [sc.me, rule])
-    except ModelRaise as exc:
-        got = ("raises", str(exc))
-    return sc, got, want, must_visit
+    ex = world.exec()
+    got = _interpret("_xreplace hook", lambda: ex.apply(hook, [sc.me, rule], {}))
+    return sc, ex, got, want, must_visit
 
 
 def _outcome_ok_pair(got, want) -> bool:
@@ -303,8 +372,6 @@ def _outcome_ok_pair(got, want) -> bool:
 
 
 def _subs_scenarios():
-    import itertools
-
     kinds = ("expr-hit", "expr-miss", "attr-expr-hit", "plain", "class")
     for n in range(4):
         for combo in itertools.product(kinds, repeat=n):
@@ -312,8 +379,11 @@ def _subs_scenarios():
                 yield combo, hints
 
 
-def _run_subs(tree: Tree, fn, combo: tuple[str, ...], hints: dict):
-    sc = _Scenario(combo)
+def _run_subs(world: DecoratorWorld, combo: tuple[str, ...], hints: dict):
+    sc = _Scenario(world, combo)
+    hook = sc.cls.installed.get("_eval_subs")  # type: ignore[attr-defined]
+    if hook is None:
+        return None
     old, new = MObj("old"), MObj("new")
     for i, (v, kind) in enumerate(zip(sc.values, combo)):
         if "expr" in kind:
@@ -338,52 +408,77 @@ def _run_subs(tree: Tree, fn, combo: tuple[str, ...], hints: dict):
             v.attrs["_eval_subs"] = unbound
     results = [sc.results.get(i, v) for i, v in enumerate(sc.values)]
     want = ("rebuilt", results) if any(r is not v for r, v in zip(results, sc.values)) else sc.me
-    ex = ModelExec(tree)
-    try:
-        got = ex.call_function(fn, [sc.me, old, new], dict(hints))
-    except ModelRaise as exc:
-        got = ("raises", str(exc))
-    return sc, got, want, [i for i, kind in enumerate(combo) if "expr" in kind]
+    ex = world.exec()
+    got = _interpret("_eval_subs hook", lambda: ex.apply(hook, [sc.me, old, new], dict(hints)))
+    return sc, ex, got, want, [i for i, kind in enumerate(combo) if "expr" in kind]
 
 
-def _hook_function(tree: Tree, attr: str, default: str):
-    hooks = installed_hooks(tree)
-    if attr in hooks:
-        fn = tree.funcs.get(hooks[attr][2] or "")
-        if fn is None:
-            raise AnalysisError(f"hook {attr} = {unparse(hooks[attr][0])} cannot be resolved to a function")
-        return fn
-    fn = tree.funcs.get(f"{_MOD}::{default}")
-    if fn is None:
-        raise AnalysisError(f"vanished anchor: {default}")
-    return fn
+class _HookReport:
+    """What the scenarios of one substitution hook showed."""
+
+    def __init__(self) -> None:
+        self.name = ""
+        self.where = ""
+        self.n = 0
+        self.wrong: list[str] = []
+        self.skipped: list[str] = []
+        self.consulted: set[str] = set()
+        self.deep: dict[str, str] = {}  # deep callee -> first scenario
+        self.one_name_getter: list[str] = []  # scenarios in which a one-name attrgetter produced a bare value
+        self.incomplete: list[str] = []  # scenarios in which the instance was rebuilt from the results of the SymPy fields only
+        self.partial_rebuilds: list[str] = []  # self.func(...) with fewer values than fields
+        self.n_rebuilds = 0
 
 
-def _model_hook(tree: Tree, attr: str):
-    """Run every scenario of one hook: (fn, number of scenarios, wrong results, arguments not descended into)."""
-    wrong: list[str] = []
-    skipped: list[str] = []
-    consulted: set[str] = set()
-    n = 0
+def _model_hook(tree: Tree, attr: str) -> _HookReport | None:
+    """Run every scenario of one hook (None: the decorator installs no such hook on any model class)."""
+    world = DecoratorWorld.of(tree)
+    if ("hook", attr) in world.cache:
+        return world.cache[("hook", attr)]
+    rep = _HookReport()
     if attr == "_xreplace":
-        fn = _hook_function(tree, attr, "_xreplace_method")
-        runs = ((f"{_Scenario(c).describe()}, rule: {rk}", _run_xreplace(tree, fn, rk, c), True) for rk, c in _xreplace_scenarios())
+        runs = ((f"{_describe(c)}, rule: {rk}", _run_xreplace(world, rk, c), True) for rk, c in _xreplace_scenarios())
     else:
-        fn = _hook_function(tree, attr, "_eval_subs_method")
-        runs = ((f"{_Scenario(c).describe()}" + (f", hints {h}" if h else ""), _run_subs(tree, fn, c, h), False) for c, h in _subs_scenarios())
-    for label, (sc, got, want, must_visit), pair in runs:
-        n += 1
+        runs = ((f"{_describe(c)}" + (f", hints {h}" if h else ""), _run_subs(world, c, h), False) for c, h in _subs_scenarios())
+    any_hook = False
+    for label, run, pair in runs:
+        if run is None:
+            continue  # no hook on this class (SymPy's own method applies; R-HOOKS states for which classes that is admissible)
+        sc, ex, got, want, must_visit = run
+        if not any_hook:
+            any_hook = True
+            rep.name, rep.where = world.describe(sc.cls.installed[attr])  # type: ignore[attr-defined]
+        rep.n += 1
         ok = _outcome_ok_pair(got, want) if pair else _same_object(got, want)
         if sc.bad_calls:
             ok = False
         if not ok:
-            wrong.append(f"fields {label}: returns {_show(got)}, specified {_show(want)}" + (f" [{sc.bad_calls[0]}]" if sc.bad_calls else ""))
+            rep.wrong.append(f"fields {label}: returns {_show(got)}, specified {_show(want)}" + (f" [{sc.bad_calls[0]}]" if sc.bad_calls else ""))
         missed = [i for i in must_visit if i not in sc.visits]
         if missed:
             views = sorted(set(sc.me.reads) & set(_FREE_SYMBOL_VIEWS))
-            consulted |= set(views)
-            skipped.append(f"fields {label}: " + ", ".join(f"a{i}" for i in missed) + " not descended into" + (f" (the hook consulted self.{views[0]})" if views else ""))
-    return fn, n, wrong, skipped, sorted(consulted)
+            rep.consulted |= set(views)
+            rep.skipped.append(f"fields {label}: " + ", ".join(f"a{i}" for i in missed) + " not descended into" + (f" (the hook consulted self.{views[0]})" if views else ""))
+        for note in world.notes_since(ex):
+            if note[0] == "deep" and (note[2] is sc.me or any(note[2] is v for v in sc.values)):
+                rep.deep.setdefault(note[1], label)
+            if note[0] == "attrgetter-one-name" and len(sc.values) == 1 and not ok:
+                rep.one_name_getter.append(label)
+        n_fields = len(sc.values)
+        for args, _kw in sc.rebuilds:
+            rep.n_rebuilds += 1
+            if len(args) < n_fields:
+                rep.partial_rebuilds.append(f"fields {label}: self.func({', '.join(map(repr, args))}) with {len(args)} of {n_fields} field values")
+                sympy_results = [sc.results.get(i, v) for i, (v, s) in enumerate(zip(sc.values, sc.sympify)) if s]
+                if len(args) == len(sympy_results) and all(x is y for x, y in zip(args, sympy_results)):
+                    rep.incomplete.append(label)
+    out = rep if any_hook else None
+    world.cache[("hook", attr)] = out
+    return out
+
+
+def _describe(kinds: tuple[str, ...]) -> str:
+    return "(" + ", ".join(kinds) + ")"
 
 
 def check_descent(ctx: Check, tree: Tree) -> None:
@@ -394,208 +489,19 @@ def check_descent(ctx: Check, tree: Tree) -> None:
     cannot be decided from the free symbols of the expression.  Decided on the model: in every
     scenario (non-empty rule that does not contain the instance itself) every field value that is an
     expression - in a SymPy field or not - receives the recursive call."""
-    hooks = installed_hooks(tree)
     for attr in ("_xreplace", "_eval_subs"):
-        if attr not in hooks:
+        rep = _model_hook(tree, attr)
+        if rep is None:
             continue
-        fn, n, _wrong, skipped, consulted = _model_hook(tree, attr)
-        key = f"{fn.qual}::descends-into-all-arguments"
+        key = f"{rep.name}::descends-into-all-arguments"
         why = None
-        if skipped:
-            why = {"scenarios": skipped[:4], "count": len(skipped)}
-            if consulted:
-                why["why"] = (f"the hook decides from self.{consulted[0]} whether anything can be replaced: xreplace/subs keys may be arbitrary sub-expressions (or non-SymPy attribute values), "
+        if rep.skipped:
+            why = {"scenarios": rep.skipped[:4], "count": len(rep.skipped)}
+            if rep.consulted:
+                first = sorted(rep.consulted)[0]
+                why["why"] = (f"the hook decides from self.{first} whether anything can be replaced: xreplace/subs keys may be arbitrary sub-expressions (or non-SymPy attribute values), "
                               "not only free symbols: such replacements are silently skipped inside these classes, so replace-then-unfold differs from unfold-then-replace")
-        ctx.verdict(not skipped, "R-DESCEND", key, tree.loc(fn.node), f"{fn.qual}: every field value that is an expression receives the recursive call whenever the rule is non-empty ({n} model instances)", why)
-
-
-def check_content_injective(ctx: Check, tree: Tree, hook_fn) -> None:
-    """R-INJECTIVE: "equal exactly when ... non-SymPy attributes are equal".  _hashable_content
-    maps every non-SymPy attribute through a key function.  For a *hashable* attribute (a class,
-    a function, an instance) the key must determine the attribute: the object itself, or a
-    wrapper whose __eq__ compares the wrapped objects.  A string derived from the object
-    (__qualname__, __name__, str(), repr(), f-string) is not injective: two classes or lambdas of
-    the same name - a redefined notebook cell, two closures of one factory - compare equal and
-    SymPy's expression cache hands out nodes that carry the other attribute.
-    (str(obj) for *unhashable* attributes, inside the TypeError handler of hash(obj), has no exact
-    alternative and is recorded as an advisory.)"""
-    from ..dataflow import RD
-
-    # the key functions: the functions of the package that the hook applies to a single field value - found by
-    # interpreting the hook on a model instance (whether the call sits in a generator, a loop, a map() or a helper)
-    key_fns = hashable_content_model(tree, hook_fn)["key_fns"]
-    if not key_fns:
-        ctx.ok("R-INJECTIVE", tree.loc(hook_fn.node), f"{hook_fn.qual}: attribute values enter the hashable content unchanged")
-        return
-    for kf in key_fns:
-        if not kf.params:
-            raise AnalysisError(f"{kf.qual}: no parameter")
-        param = kf.params[0]
-        rd = RD(kf.node)
-        n_ret = 0
-        for ret in [r for r in walk_function(kf.node, nested=False) if isinstance(r, ast.Return) and r.value is not None]:
-            n_ret += 1
-            v = ret.value
-            in_type_error_handler = any(isinstance(a, ast.ExceptHandler) and a.type is not None and "TypeError" in unparse(a.type) for a in _ancestors(ret))
-            key = f"{kf.qual}::return {unparse(v)[:50]}"
-            if isinstance(v, ast.Name) and v.id == param:
-                ctx.ok("R-INJECTIVE", tree.loc(ret), f"{kf.qual}: `return {v.id}` - the attribute itself is the key")
-                continue
-            if isinstance(v, ast.Call):
-                callee = tree.callee(v, kf)
-                cls = tree.classes.get(callee) if callee else None
-                if cls is not None and len(v.args) == 1 and isinstance(v.args[0], ast.Name) and v.args[0].id == param:
-                    eq = cls.methods.get("__eq__")
-                    hs = cls.methods.get("__hash__") or next(
-                        (st for st in cls.node.body if isinstance(st, ast.Assign) and any(isinstance(t, ast.Name) and t.id == "__hash__" for t in st.targets)
-                         and not (isinstance(st.value, ast.Constant) and st.value.value is None)), None)
-                    compares = eq is not None and any(
-                        isinstance(n, ast.Compare) and len(n.ops) == 1 and isinstance(n.ops[0], (ast.Is, ast.Eq))
-                        and all(isinstance(x, ast.Attribute) for x in (n.left, n.comparators[0])) and n.left.attr == n.comparators[0].attr
-                        for n in walk_function(eq.node))
-                    ok = compares and hs is not None
-                    ctx.verdict(ok, "R-INJECTIVE", key, tree.loc(ret), f"{kf.qual}: `return {unparse(v)}` - wrapper {cls.name} compares the wrapped objects ({'identity/equality' if compares else 'NO __eq__ on the wrapped object'}) and defines __hash__",
-                                None if ok else "the wrapper does not determine the attribute")
-                    continue
-            lossy = isinstance(v, ast.JoinedStr) or (isinstance(v, ast.Call) and unparse(v.func) in {"str", "repr", "format", "id", "hash"}) or any(
-                isinstance(n, ast.Attribute) and n.attr in {"__qualname__", "__name__", "__module__"} for n in ast.walk(v))
-            if lossy and in_type_error_handler:
-                ctx.advisory("R-INJECTIVE", tree.loc(ret), f"{kf.qual}: unhashable attributes are keyed by `{unparse(v)}` (no exact key exists for them)")
-                continue
-            if lossy:
-                ctx.violation("R-INJECTIVE", f"{kf.qual}::name-derived-key", tree.loc(ret),
-                              f"{kf.qual}: `return {unparse(v)[:70]}` - a hashable attribute is replaced by a string derived from it",
-                              "two distinct classes / functions with the same module and qualified name (redefinition in a session, closures of one factory, lambdas) give equal, equally hashed expressions although evaluate() differs")
-                continue
-            if isinstance(v, ast.Tuple):
-                # structural key: a tuple of components of the attribute.  A mapping-valued component
-                # must enter with its VALUES (items()); iterating / sorting the mapping keeps the keys only
-                probs = []
-                for e in v.elts:
-                    for sub in ast.walk(e):
-                        if isinstance(sub, ast.Call) and unparse(sub.func) in {"sorted", "tuple", "list", "set", "frozenset"} and sub.args:
-                            a0 = sub.args[0]
-                            if isinstance(a0, ast.Attribute) and a0.attr in {"keywords", "kwargs", "__dict__"} and isinstance(a0.value, ast.Name) and a0.value.id == param:
-                                probs.append(f"`{unparse(sub)}` keeps only the keys of `{unparse(a0)}`")
-                        if isinstance(sub, ast.Call) and isinstance(sub.func, ast.Attribute) and sub.func.attr == "keys" and unparse(sub.func.value).startswith(param + "."):
-                            probs.append(f"`{unparse(sub)}` keeps only the keys")
-                if probs:
-                    ctx.violation("R-INJECTIVE", f"{kf.qual}::lossy-structural-key", tree.loc(ret),
-                                  f"{kf.qual}: the structural key `{unparse(v)[:70]}` drops part of the attribute: " + "; ".join(probs),
-                                  "two attributes that differ only in the dropped part (e.g. partial(f, flag=False) vs partial(f, flag=True)) give equal, equally hashed expressions with different doit()")
-                else:
-                    ctx.advisory("R-INJECTIVE", tree.loc(ret), f"{kf.qual}: structural key `{unparse(v)[:70]}` (components not judged further)")
-                continue
-            raise AnalysisError(f"{kf.qual}: return `{unparse(v)[:60]}` of unknown shape")
-        if not n_ret:
-            raise AnalysisError(f"{kf.qual}: no return")
-
-
-def check_arg_order(ctx: Check, tree: Tree) -> None:
-    """R-ARGORDER: `.args` of an instance are in field-declaration order however the call spells its
-    arguments (evaluate()/printers unpack `self.args` positionally, subs/xreplace/pickle rebuild
-    positionally).  new_method lays out the SymPy args in the iteration order of the mapping that
-    _extract_field_values returns, so every insertion into that mapping must happen in field order:
-    by zip(fields, args) or inside a loop over (a slice of) the field tuple - never in the order of
-    the caller's keyword arguments."""
-    from ..dataflow import RD
-
-    new = tree.funcs.get(f"{IMPLEMENT_NEW}.new_method")
-    ext = tree.funcs.get("ampform.sympy._decorator::_extract_field_values")
-    if new is None or ext is None:
-        raise AnalysisError("vanished anchor: new_method / _extract_field_values")
-    nrd = RD(new.node) if new.outer is None else None
-    from ..prov import _rd_for
-
-    nrd = _rd_for(new, {})
-    # does new_method depend on the mapping's order?
-    order_sensitive = False
-    for node in walk_function(new.node):
-        if isinstance(node, (ast.GeneratorExp, ast.ListComp)) and any(
-            isinstance(c, ast.Call) and isinstance(c.func, ast.Attribute) and c.func.attr == "items" for c in ast.walk(node.generators[0].iter)
-        ):
-            src = node.generators[0].iter
-            if any(d.value is not None and "_extract_field_values" in unparse(d.value) for d in nrd.closure(nrd.uses(src))):
-                order_sensitive = True
-    if not order_sensitive:
-        ctx.ok("R-ARGORDER", tree.loc(new.node), "new_method lays out the SymPy args by iterating the field tuple: insertion order of the extracted mapping is irrelevant")
-        return
-    rd = RD(ext.node)
-    params = ext.params
-    kw_defs = {d for d in rd.defs if d.kind == "param" and d.name in {ext.node.args.kwarg.arg if ext.node.args.kwarg else "kwargs"}}
-    ret_names = set()
-    for ret, _ in rd.returns:
-        if ret.value is not None and isinstance(ret.value, ast.Tuple) and ret.value.elts:
-            ret_names |= {n.id for n in ast.walk(ret.value.elts[0]) if isinstance(n, ast.Name)}
-    n_ins = 0
-    problems = []
-    for node in walk_function(ext.node):
-        if isinstance(node, ast.Assign) and isinstance(node.targets[0], ast.Subscript) and isinstance(node.targets[0].value, ast.Name) and node.targets[0].value.id in ret_names:
-            n_ins += 1
-            loops = [a for a in _ancestors(node) if isinstance(a, ast.For)]
-            if not loops:
-                problems.append((node, "inserted outside any loop over the fields"))
-                continue
-            it = loops[0].iter
-            deps = rd.closure(rd.uses(it))
-            from_fields = any(d.value is not None and "_get_fields" in unparse(d.value) for d in deps)
-            from_kwargs = bool(deps & kw_defs) or any(isinstance(n, ast.Name) and n.id in {d.name for d in kw_defs} for n in ast.walk(it))
-            if from_kwargs:
-                problems.append((node, f"inserted in a loop over `{unparse(it)}` - the order of the caller's keyword arguments"))
-            elif not from_fields:
-                problems.append((node, f"inserted in a loop over `{unparse(it)}`, which does not derive from the field tuple"))
-    if n_ins == 0:
-        raise AnalysisError(f"{ext.qual}: no insertion into the returned mapping found")
-    for node, why in problems:
-        ctx.violation("R-ARGORDER", f"{ext.qual}::{why.split(' - ')[0][:60]}", tree.loc(node), f"{ext.qual}: `{unparse(node)[:60]}` is {why}",
-                      "Cls(b=.., a=..) then has .args == (b, a): evaluate() unpacks `a, b = self.args` and computes with the values interchanged, while the named attributes still look right")
-    if not problems:
-        ctx.ok("R-ARGORDER", tree.loc(ext.node), f"{ext.qual}: all {n_ins} insertions into the field mapping happen in field-declaration order (zip with the positional arguments, loops over slices of the field tuple)")
-
-
-def check_internal_rebuild(ctx: Check, tree: Tree) -> None:
-    """R-REBUILD (decorator): a method that @unevaluated installs on every class reconstructs an
-    instance only from the COMPLETE argument list (_get_arguments(self): all fields), never from
-    `self.args` (SymPy arguments only) - otherwise the copy carries the defaults of the non-SymPy
-    attributes (phsp_factor=PhaseSpaceFactor, name=None) and e.g. doit() of a width with a nested
-    argument unfolds with another phase-space factor than the one it was built with."""
-    from ..dataflow import RD
-
-    mod = "ampform.sympy._decorator"
-    n = 0
-    bad = 0
-    for q, fn in sorted(tree.funcs.items()):
-        if not q.startswith(mod + "::") or not fn.params or fn.params[0] != "self":
-            continue
-        from ..prov import _rd_for
-
-        rd = _rd_for(fn, {})
-        for node in walk_function(fn.node, nested=False):
-            if not (isinstance(node, ast.Call) and isinstance(node.func, ast.Attribute) and node.func.attr == "func"
-                    and isinstance(node.func.value, ast.Name) and node.func.value.id == "self"):
-                continue
-            n += 1
-            srcs = []
-            for a in node.args:
-                inner = a.value if isinstance(a, ast.Starred) else a
-                deps = rd.closure(rd.uses(inner))
-                texts = [unparse(inner)] + [unparse(d.value) for d in deps if isinstance(d.value, ast.AST)]
-                srcs.append(" ".join(texts))
-            txt = " ".join(srcs)
-            from_args = "self.args" in txt or "self._args" in txt
-            complete = "_get_arguments(self)" in txt
-            # self.func(coefficient, nonnumber, evaluate=False) - the 2-arg hack on already rebuilt values
-            if not from_args and not complete and not any(isinstance(a, ast.Starred) for a in node.args):
-                ctx.info("R-REBUILD", tree.loc(node), f"{q}: `{unparse(node)[:50]}` takes explicit values")
-                continue
-            ok = complete and not from_args
-            if not ok:
-                bad += 1
-            ctx.verdict(ok, "R-REBUILD", f"{q}::self.func from {'self.args' if from_args else 'unknown'}", tree.loc(node),
-                        f"{q}: `{unparse(node)[:50]}` rebuilds the instance from {'the complete field values (_get_arguments)' if ok else 'self.args (SymPy arguments only)'}",
-                        None if ok else "non-SymPy attributes of the rebuilt instance fall back to their defaults")
-    if n < 2:
-        raise AnalysisError(f"only {n} self.func(...) reconstructions found in the decorator hooks (4 confirmed)")
+        ctx.verdict(not rep.skipped, "R-DESCEND", key, rep.where, f"{rep.name}: every field value that is an expression receives the recursive call whenever the rule is non-empty ({rep.n} model instances)", why)
 
 
 def check_change_propagation(ctx: Check, tree: Tree) -> None:
@@ -613,61 +519,486 @@ def check_change_propagation(ctx: Check, tree: Tree) -> None:
     specification, scenario by scenario."""
     for attr, what in (("_xreplace", "_xreplace hook: (rule[self], True) iff self in rule; every argument's result collected; rebuilt instance iff some argument reported a replacement"),
                        ("_eval_subs", "_eval_subs hook: arg._subs(old, new) per argument; a differing result sets the hit flag and replaces that argument's slot; rebuilt instance iff hit, else self")):
-        fn, n, wrong, _skipped, _ = _model_hook(tree, attr)
-        ctx.stats[f"model_instances{attr}"] = n
-        ctx.verdict(not wrong, "R-PROPAGATE", f"{fn.qual}::change-propagation", tree.loc(fn.node), f"{what} ({n} model instances)",
-                    {"scenarios": wrong[:4], "count": len(wrong)} if wrong else None)
+        rep = _model_hook(tree, attr)
+        if rep is None:
+            continue
+        ctx.stats[f"model_instances{attr}"] = rep.n
+        ctx.verdict(not rep.wrong, "R-PROPAGATE", f"{rep.name}::change-propagation", rep.where, f"{what} ({rep.n} model instances)",
+                    {"scenarios": rep.wrong[:4], "count": len(rep.wrong)} if rep.wrong else None)
 
 
-def hashable_content_model(tree: Tree, hook_fn) -> dict:
-    """Interpret the _hashable_content hook on a model instance with the fields s0, s1 (SymPy arguments) and
-    n0, n1, n2 (non-SymPy attributes: a plain value, a class object, None).  A function of the package that is
-    called with exactly one field value is a KEY FUNCTION (its result stands for that value); it is not
-    entered but recorded.  Returns which non-SymPy values are missing from the returned content, which SymPy
-    field values were added (through a key function), whether the inherited content is kept, and the key
-    functions."""
-    fields, values = [], {}
-    for name, sympify, kinds in (("s0", True, {"expr"}), ("n0", False, {"plain"}), ("s1", True, {"expr"}), ("n1", False, {"class"}), ("n2", False, {"plain"})):
-        fields.append(MObj(f"field {name}", {"name": name, "metadata": {"sympify": sympify}}, kinds={"Field"}))
-        values[name] = MObj(f"value of {name}", kinds=kinds, open=False)
-    inherited = (MObj("type(self)"), values["s0"], values["s1"])
-    me = MObj("self", {**values, "__dataclass_fields__": fields, "args": (values["s0"], values["s1"]),
-                       "__super__": MObj("super()", {"_hashable_content": lambda a, k: inherited})}, kinds={"expr"})
+# ---------------------------------------------------------------------------- R-SHALLOW / R-COMPLETE
+def _getnewargs_model(tree: Tree, attr: str) -> dict | None:
+    """Interpret the argument hook (``__getnewargs__``) on model instances of every field layout with up to three
+    fields; every field value is itself a dataclass instance (a nested @unevaluated expression)."""
+    world = DecoratorWorld.of(tree)
+    out = {"n": 0, "name": "", "where": "", "deep": {}, "not_tuple": [], "one_name_getter": [], "incomplete": [], "other": [], "raises": []}
+    any_hook = False
+    for sig in ALL_SIGNATURES:
+        cls = world.model_class(sig)
+        hook = cls.installed.get(attr)  # type: ignore[attr-defined]
+        if hook is None:
+            continue
+        if not any_hook:
+            any_hook = True
+            out["name"], out["where"] = world.describe(hook)
+        values = []
+        for i, s in enumerate(sig):
+            v = MObj(f"a{i}: nested expression" if s else f"a{i}: nested expression in a non-SymPy field", kinds={"expr"}, open=False)
+            v.attrs["__dataclass_fields__"] = {"x": MObj("field x", {"name": "x", "metadata": {}}, kinds={"Field"}, open=False)}
+            v.attrs["x"] = MObj(f"a{i}.x", kinds={"expr"}, open=False)
+            v.attrs["__iter__"] = _not_iterable
+            values.append(v)
+        me = MObj("self", {f"a{i}": v for i, v in enumerate(values)}, kinds={"expr"}, open=False)
+        me.attrs.update({"__class__": cls, "args": tuple(v for v, s in zip(values, sig) if s), "__iter__": _not_iterable})
+        me.attrs["_args"] = me.attrs["args"]
+        ex = world.exec()
+        got = _interpret(f"{attr} hook", lambda ex=ex, hook=hook, me=me: ex.apply(hook, [me], {}))
+        out["n"] += 1
+        label = f"fields <{_sig(sig)}>"
+        notes = world.notes_since(ex)
+        deep = [n for n in notes if n[0] == "deep"]
+        for n in deep:
+            out["deep"].setdefault(n[1], label)
+        if isinstance(got, tuple) and got and got[0] == "raises":
+            out["raises"].append(f"{label}: {got[1]}")
+            continue
+        if not isinstance(got, (tuple, list)):
+            (out["one_name_getter"] if any(n[0] == "attrgetter-one-name" for n in notes) else out["not_tuple"]).append(f"{label}: returns {got!r}")
+            continue
+        if len(got) == len(values) and all(x is y for x, y in zip(got, values)):
+            continue
+        sympy_values = [v for v, s in zip(values, sig) if s]
+        if not deep and len(got) == len(sympy_values) and all(x is y for x, y in zip(got, sympy_values)):
+            out["incomplete"].append(f"{label}: returns {tuple(got)!r}")
+        elif not deep:
+            out["other"].append(f"{label}: returns {tuple(got)!r}, the field values are {tuple(values)!r}")
+    return out if any_hook else None
+
+
+def check_shallow_hooks(ctx: Check, tree: Tree, hook_names: list[str], need_complete: bool) -> None:
+    """R-SHALLOW / R-COMPLETE: the hooks take the instance's arguments from a shallow and complete source - the
+    field values themselves, all of them, in field order, as a tuple for every number of fields.  Decided on the
+    model: ``__getnewargs__`` must return exactly the tuple of the field values (which are nested dataclass
+    instances); the substitution hooks must hand every field value itself to the recursive call and rebuild from
+    one value per field.  ``dataclasses.astuple`` / ``asdict`` / ``copy.deepcopy`` destructure or copy nested
+    expressions (their models say so), ``operator.attrgetter`` with one name yields the bare value."""
+    table = installed_by_model(tree)
+    for attr in hook_names:
+        if attr not in table:
+            if attr in {"_eval_subs", "_xreplace"}:
+                continue  # R-HOOKS reports the missing hook
+            raise AnalysisError(f"vanished anchor: hook {attr} is not installed by @unevaluated on any model class")
+        if attr in {"_eval_subs", "_xreplace"}:
+            rep = _model_hook(tree, attr)
+            if rep is None:
+                continue
+            facts = {"name": rep.name, "where": rep.where, "n": rep.n, "deep": rep.deep, "one_name_getter": rep.one_name_getter, "incomplete": rep.incomplete,
+                     "not_tuple": [], "other": [], "raises": []}
+        else:
+            facts = _getnewargs_model(tree, attr)
+            if facts is None:
+                raise AnalysisError(f"vanished anchor: hook {attr} is not installed on any model class")
+        what = f"cls.{attr} = {facts['name'].split('::')[-1]}"
+        where = facts["where"]
+        bad = False
+        for callee, label in sorted(facts["deep"].items()):
+            bad = True
+            ctx.violation("R-SHALLOW", f"{IMPLEMENT_NEW}::cls.{attr}->{callee}", where, f"{what}: reads the arguments with {callee} ({label})",
+                          {"deep_source": callee, "why": DEEP_SOURCES.get(callee, "copies / destructures nested expressions"), "path": [IMPLEMENT_NEW, facts["name"]]})
+        if facts["one_name_getter"]:
+            bad = True
+            single = sorted(c.qual.split("::")[-1] for c in expression_classes(tree).values() if len(c.fields) == 1)
+            ctx.violation("R-SHALLOW", f"{IMPLEMENT_NEW}::cls.{attr}->operator.attrgetter::arity", where,
+                          f"{what}: reads the fields with operator.attrgetter - for a class with ONE field that is the bare value, not a 1-tuple ({facts['one_name_getter'][0]})",
+                          {"why": "the hooks rebuild with cls(*arguments): a bare expression is unpacked (or fails to)", "one_field_classes": single[:8], "n_one_field_classes": len(single)})
+        if facts["not_tuple"]:
+            bad = True
+            ctx.violation("R-SHALLOW", f"{IMPLEMENT_NEW}::cls.{attr}::not-a-tuple", where, f"{what}: does not return a tuple of the field values ({facts['not_tuple'][0]})")
+        if facts["raises"] and not bad:
+            bad = True
+            ctx.violation("R-SHALLOW", f"{IMPLEMENT_NEW}::cls.{attr}::raises", where, f"{what}: raises on a model instance ({facts['raises'][0]})")
+        if facts["other"]:
+            bad = True
+            ctx.violation("R-COMPLETE", f"{IMPLEMENT_NEW}::cls.{attr}::not-the-field-values", where, f"{what}: does not return the field values in field order ({facts['other'][0]})")
+        if facts["incomplete"] and need_complete:
+            bad = True
+            ctx.violation("R-COMPLETE", f"{IMPLEMENT_NEW}::cls.{attr}::incomplete", where,
+                          f"{what}: the arguments omit the non-SymPy fields, but the object is rebuilt with all fields ({facts['incomplete'][0]})")
+        if not bad:
+            ctx.ok("R-SHALLOW", where, f"{what}: on {facts['n']} model instances the arguments are the field values themselves (nested dataclass instances are handed out as they are), one per field, in field order")
+
+
+# ---------------------------------------------------------------------------- R-PREC
+def check_precedence(ctx: Check, tree: Tree, prefixes: tuple[str, ...]) -> int:
+    """R-PREC over the printer methods of the given modules."""
+    from ..rules import precedence_hazards, printer_methods
+
+    n = 0
+    undecided: list[tuple] = []
+    for fn in sorted(printer_methods(tree), key=lambda f: f.qual):
+        if not fn.qual.startswith(prefixes):
+            continue
+        n += 1
+        fields_of_holes: dict = {}
+        hz = precedence_hazards(tree, fn, undecided, fields_of_holes)
+        if hz:
+            hole, why = hz[0]
+            label = f"field {fields_of_holes[id(hole)]}" if id(hole) in fields_of_holes else _hole_label(tree, fn, hole)
+            ctx.violation("R-PREC", f"{fn.qual}::precedence::{label}", tree.loc(hole), f"{fn.qual}: {why}",
+                          "printer._print returns e.g. `a + b` for a sum without parentheses: `-{x}` / `{x}**2` / `{x} * c` then bind to the last term only, "
+                          "so the generated code of the folded form computes something else than the unfolded expression for compound arguments")
+        else:
+            ctx.ok("R-PREC", tree.loc(fn.node), f"{fn.qual}: no printed sub-expression sits unparenthesised next to a tighter-binding operator")
+    if undecided:
+        raise AnalysisError("; ".join(f"{tree.loc(hole)}: {why}" for hole, why in undecided[:3]))
+    return n
+
+
+def _hole_label(tree: Tree, fn, hole: ast.AST) -> str:
+    """Key of a placeholder: the field of the class that it prints (not the name of the local that holds it)."""
+    label = unparse(hole)
+    ec = expression_classes(tree).get(fn.cls.qual) if fn.cls is not None else None
+    if ec is None or not isinstance(hole, ast.Name):
+        return label
+    for _st, elts, _ in self_args_unpackings(fn, tree):
+        for e, f_ in zip(elts, [x.name for x in ec.sympy_fields]):
+            if isinstance(e, ast.Name) and e.id == hole.id:
+                label = f"field {f_}"
+    # `x = printer._print(self.<field>)`: the same field reached by attribute
+    from ..dataflow import RD
+
+    for d in RD(fn.node).reaching(hole):
+        v = d.value
+        if isinstance(v, ast.Call) and v.args and isinstance(v.args[0], ast.Attribute) and isinstance(v.args[0].value, ast.Name) and v.args[0].value.id == "self" \
+                and v.args[0].attr in {x.name for x in ec.fields}:
+            label = f"field {v.args[0].attr}"
+    return label
+
+
+# ---------------------------------------------------------------------------- R-HASH / R-INJECTIVE
+def _content_instance(world: DecoratorWorld, values: dict[str, object]):
+    """A model instance with the fields s0, n0, s1, n1, n2 (s: SymPy argument, n: non-SymPy attribute)."""
+    sig = (True, False, True, False, False)
+    names = ("s0", "n0", "s1", "n1", "n2")
+    cls = world.model_class(sig)
+    inherited = (world.type_marker, values["s0"], values["s1"])
+    me = MObj("self", {f"a{i}": values[n] for i, n in enumerate(names)}, kinds={"expr"}, open=False)
+    me.attrs.update({"__class__": cls, "args": (values["s0"], values["s1"]), "_args": (values["s0"], values["s1"]),
+                     "__super__": MObj("super()", {"_hashable_content": lambda a, k: inherited}, open=False)})
+    return cls, me, inherited
+
+
+def hashable_content_model(tree: Tree, hook_fn=None) -> dict:
+    """Interpret the installed ``_hashable_content`` hook on a model instance with the fields s0, s1 (SymPy
+    arguments) and n0, n1, n2 (non-SymPy attributes: a plain value, a class object, None).  A function of the
+    package that is called with exactly one field value is a KEY FUNCTION (its result stands for that value); it
+    is recorded (for naming the culprit) and entered.  Which non-SymPy attributes the content COVERS is decided by
+    varying one attribute at a time: the content must change."""
+    world = DecoratorWorld.of(tree)
+    if "content" in world.cache:
+        return world.cache["content"]
+    base = {"s0": MObj("value of s0", kinds={"expr"}, open=False), "s1": MObj("value of s1", kinds={"expr"}, open=False),
+            "n0": "rho", "n1": MObj("value of n1 (a class)", {"__module__": "m", "__qualname__": "A", "__name__": "A", "__str__": lambda a, k: "<class 'm.A'>"}, kinds={"class"}, open=False), "n2": None}
     key_fns: dict[str, object] = {}
 
-    def intercept(fn, args, kwargs):
-        if len(args) == 1 and not kwargs and any(args[0] is v for v in values.values()):
-            key_fns[fn.qual] = fn
-            return True, MObj(f"{fn.name}({args[0]!r})", {"__key_of__": args[0]}, open=False)
-        return False, None
+    def run(values, record=False):
+        cls, me, inherited = _content_instance(world, values)
+        hook = cls.installed.get("_hashable_content")  # type: ignore[attr-defined]
+        if hook is None:
+            raise AnalysisError("no _hashable_content hook on the model class")
+        field_values = [v for v in values.values()]
 
-    ex = ModelExec(tree, intercept=intercept)
-    try:
-        got = ex.call_function(hook_fn, [me])
-    except ModelRaise as exc:
-        raise AnalysisError(f"{hook_fn.qual}: raises {exc} on the model instance") from None
-    if not isinstance(got, (tuple, list)):
-        raise AnalysisError(f"{hook_fn.qual}: returns {got!r} on the model instance, not a tuple")
+        def intercept(fn, args, kwargs):
+            if record and len(args) == 1 and not kwargs and any(args[0] is v for v in field_values if isinstance(v, MObj)):
+                key_fns[fn.qual] = fn
+            return False, None
 
-    def stands_for(item, v) -> bool:
-        return item is v or (isinstance(item, MObj) and item.attrs.get("__key_of__") is v)
+        ex = world.exec(intercept=intercept)
+        got = _interpret("_hashable_content hook", lambda: ex.apply(hook, [me], {}))
+        if isinstance(got, tuple) and got and got[0] == "raises":
+            raise AnalysisError(f"_hashable_content hook: {got[1]} on the model instance")
+        if not isinstance(got, (tuple, list)):
+            raise AnalysisError(f"_hashable_content hook: returns {got!r} on the model instance, not a tuple")
+        return ex, tuple(got), inherited, hook
 
-    missing = [n for n in ("n0", "n1", "n2") if not any(stands_for(x, values[n]) for x in got)]
-    wrapped_sympy = [n for n in ("s0", "s1") if any(isinstance(x, MObj) and x.attrs.get("__key_of__") is values[n] for x in got)]
-    has_super = all(any(x is y for x in got) for y in inherited)
-    return {"missing": missing, "wrapped_sympy": wrapped_sympy, "has_super": has_super, "key_fns": list(key_fns.values()), "entered": ex.entered}
+    ex0, content0, inherited0, hook = run(base, record=True)
+    name, where = world.describe(hook)
+    other = {"n0": "sigma", "n1": MObj("another class", {"__module__": "m", "__qualname__": "B", "__name__": "B", "__str__": lambda a, k: "<class 'm.B'>"}, kinds={"class"}, open=False),
+             "n2": "name"}
+    missing = []
+    for n in ("n0", "n1", "n2"):
+        ex1, content1, _, _ = run({**base, n: other[n]})
+        if _contents_equal(ex1, content0, content1, inherited0):
+            missing.append(n)
+    has_super = all(any(x is y for x in content0) for y in inherited0)
+    # items beyond the inherited content that do not change with any non-SymPy attribute: the SymPy fields were kept instead
+    wrapped_sympy = ["s0", "s1"][: max(0, len(content0) - len(inherited0))] if missing and has_super else []
+    out = {"missing": missing, "wrapped_sympy": wrapped_sympy, "has_super": has_super, "key_fns": list(key_fns.values()), "name": name, "where": where, "run": run, "base": base}
+    world.cache["content"] = out
+    return out
+
+
+def _contents_equal(ex, c1: tuple, c2: tuple, inherited=()) -> bool:
+    """Model equality of two hashable contents (tuple equality, element-wise with the elements' own __eq__)."""
+    return bool(ex.compare(ast.Eq(), tuple(c1), tuple(c2), None))
+
+
+def check_hash_content(ctx: Check, tree: Tree) -> None:
+    """R-HASH (content): the installed hook returns the inherited content (class, args) plus something that
+    changes with every non-SymPy attribute."""
+    content = hashable_content_model(tree)
+    key = f"{IMPLEMENT_NEW}::cls._hashable_content"
+    missing, wrapped_sympy, has_super = content["missing"], content["wrapped_sympy"], content["has_super"]
+    name, where = content["name"], content["where"]
+    if missing and not wrapped_sympy:
+        ctx.violation("R-HASH", key + "::no-fields", where, f"{name} does not return the values of the non-SymPy fields: instances that differ only in a non-SymPy attribute compare equal")
+    elif missing:
+        ctx.violation("R-HASH", key + "::filter", where, f"{name} keeps the values of the fields {wrapped_sympy} and drops {missing}: non-SymPy fields are not the ones kept")
+    elif not has_super:
+        ctx.violation("R-HASH", key + "::no-super", where, f"{name} drops the class/args part of the hashable content")
+    else:
+        ctx.ok("R-HASH", where, f"cls._hashable_content = {name.split('::')[-1]}: returns the inherited content and changes with each of the three non-SymPy attributes of the model instance")
+
+
+def check_content_injective(ctx: Check, tree: Tree, hook_fn=None) -> None:
+    """R-INJECTIVE: "equal exactly when ... non-SymPy attributes are equal".  _hashable_content
+    maps every non-SymPy attribute to a key.  For a *hashable* attribute (a class, a function, an instance,
+    a functools.partial) the key must determine the attribute: two DISTINCT attributes that merely look alike -
+    two classes or functions with the same module and qualified name (a redefined notebook cell, two closures of
+    one factory), two instances with the same str(), two partials that differ in a keyword value - must give
+    different contents; the SAME attribute must give equal contents.  Decided on the model: the installed hook
+    is interpreted on pairs of instances that differ in exactly one such attribute and the two contents are
+    compared with the keys' own ``__eq__``.  (For *unhashable* attributes no exact key exists: equal contents of
+    two unhashable look-alikes are recorded as an advisory.)"""
+    content = hashable_content_model(tree)
+    run, base = content["run"], content["base"]
+    key_fns = content["key_fns"]
+    culprit = key_fns[0].qual if len(key_fns) == 1 else content["name"]
+    where = tree.loc(key_fns[0].node) if len(key_fns) == 1 else content["where"]
+
+    def lookalike(label, kinds, hashable=True, **attrs):
+        def make(tag):
+            return MObj(f"{label} {tag}", {"__module__": "m", "__qualname__": "f.<locals>.Q", "__name__": "Q", "__str__": lambda a, k: f"<{label} Q>", **attrs}, kinds=kinds, open=False, hashable=hashable)
+
+        return make("#1"), make("#2")
+
+    shared_func = MObj("function F", {"__module__": "m", "__qualname__": "F", "__name__": "F", "__str__": lambda a, k: "<function F>"}, kinds={"function"}, open=False)
+    pairs = [
+        ("class", "two distinct classes with the same module and qualified name", *lookalike("class", {"class"})),
+        ("function", "two distinct functions with the same module and qualified name (closures of one factory, lambdas)", *lookalike("function", {"function"})),
+        ("instance", "two distinct hashable instances with the same str()", *lookalike("instance", {"plain"})),
+        ("partial", "two functools.partial objects that differ only in the value of a keyword (partial(F, flag=False) / partial(F, flag=True))",
+         MObj("partial(F, flag=False)", {"func": shared_func, "args": (), "keywords": {"flag": False}, "__str__": lambda a, k: "functools.partial(<function F>, flag=False)"}, kinds={"functools.partial", "plain"}, open=False),
+         MObj("partial(F, flag=True)", {"func": shared_func, "args": (), "keywords": {"flag": True}, "__str__": lambda a, k: "functools.partial(<function F>, flag=True)"}, kinds={"functools.partial", "plain"}, open=False)),
+    ]
+    unhashable = ("unhashable", "two distinct unhashable attributes with the same str()", *lookalike("unhashable object", {"plain"}, hashable=False))
+    n = 0
+    problems: dict[str, list[str]] = {}
+    for kind, text, x, y in [*pairs, unhashable]:
+        for field in ("n1",):
+            ex1, c1, inh1, _ = run({**base, field: x})
+            ex2, c2, _, _ = run({**base, field: y})
+            ex3, c3, _, _ = run({**base, field: x})
+            n += 1
+            if not _contents_equal(ex3, c1, c3):
+                problems.setdefault("not-reproducible", []).append(f"{text}: the SAME attribute gives different contents")
+            if _contents_equal(ex2, c1, c2):
+                if kind == "unhashable":
+                    ctx.advisory("R-INJECTIVE", where, f"{culprit}: unhashable attributes with the same str() get the same key (no exact key exists for them)")
+                else:
+                    problems.setdefault("lossy-structural-key" if kind == "partial" else "name-derived-key", []).append(text)
+    # a wrapper class that defines __eq__ without __hash__ is unhashable: hash(expr) raises
+    for kf_key, texts in sorted(problems.items()):
+        detail = {
+            "name-derived-key": "two distinct classes / functions with the same module and qualified name (redefinition in a session, closures of one factory, lambdas) give equal, equally hashed expressions although evaluate() differs",
+            "lossy-structural-key": "two attributes that differ only in the dropped part (e.g. partial(f, flag=False) vs partial(f, flag=True)) give equal, equally hashed expressions with different doit()",
+            "not-reproducible": "two expressions built from the same class, arguments and attributes do not compare equal",
+        }[kf_key]
+        ctx.violation("R-INJECTIVE", f"{culprit}::{kf_key}", where, f"{culprit}: the hashable content does not determine the attribute - " + "; ".join(texts[:3]), detail)
+    if not problems:
+        ctx.ok("R-INJECTIVE", where, f"{culprit}: on {n} pairs of model instances that differ in one look-alike attribute (classes, functions, instances, partials of equal name / str) the contents differ, "
+                                     "and the same attribute gives equal contents")
+
+
+# ---------------------------------------------------------------------------- R-ARGORDER
+def check_arg_order(ctx: Check, tree: Tree) -> None:
+    """R-ARGORDER: `.args` of an instance are in field-declaration order however the call spells its
+    arguments (evaluate()/printers unpack `self.args` positionally, subs/xreplace/pickle rebuild
+    positionally), and every field is bound to the value given for it.  Decided on the model: the installed
+    ``__new__`` is interpreted on a model class with four fields (SymPy, non-SymPy with default, SymPy, SymPy with
+    default) for calls that give the values positionally, by keyword in REVERSED order, mixed, and with defaults
+    left out; the resulting instance must have ``args`` = the values of the SymPy fields in field order and every
+    attribute bound to its value."""
+    world = DecoratorWorld.of(tree)
+    d1, d3 = MObj("default of a1"), MObj("default of a3")
+    sig = (True, False, True, True)
+    cls = world.model_class(sig, defaults=(None, d1, None, d3))
+    new = cls.installed.get("__new__")  # type: ignore[attr-defined]
+    if new is None:
+        raise AnalysisError("vanished anchor: @unevaluated installs no __new__")
+    name, where = world.describe(new)
+    v = [MObj(f"value for a{i}", kinds={"expr"}, open=False) for i in range(4)]
+    calls = [
+        ("all positional", list(v), {}, v),
+        ("three positional, a3 by default", v[:3], {}, [v[0], v[1], v[2], d3]),
+        ("a0 positional, the others by keyword in reversed order", v[:1], {"a3": v[3], "a2": v[2], "a1": v[1]}, v),
+        ("all by keyword in reversed order", [], {"a3": v[3], "a2": v[2], "a1": v[1], "a0": v[0]}, v),
+        ("a0 positional, a3 and a2 by keyword (reversed), a1 by default", v[:1], {"a3": v[3], "a2": v[2]}, [v[0], d1, v[2], v[3]]),
+        ("a0 positional, a2 by keyword, a1 and a3 by default", v[:1], {"a2": v[2]}, [v[0], d1, v[2], d3]),
+        ("a2 and a0 by keyword, a1 and a3 by default", [], {"a2": v[2], "a0": v[0]}, [v[0], d1, v[2], d3]),
+    ]
+    permuted, wrong = [], []
+    for label, args, kwargs, want in calls:
+        ex = world.exec()
+        got = _interpret("__new__ hook", lambda ex=ex, args=args, kwargs=kwargs: ex.apply(new, [cls, *args], dict(kwargs)))
+        want_args = [x for x, s in zip(want, sig) if s]
+        if not (isinstance(got, MObj) and "args" in got.attrs):
+            wrong.append(f"{label}: returns {_show(got)}")
+            continue
+        got_args = list(got.attrs["args"])
+        bound = [got.attrs.get(f"a{i}", None) for i in range(4)]
+        if len(got_args) == len(want_args) and all(x is y for x, y in zip(got_args, want_args)) and all(x is y for x, y in zip(bound, want)):
+            continue
+        if sorted(map(id, got_args)) == sorted(map(id, want_args)) and all(x is y for x, y in zip(bound, want)):
+            permuted.append(f"{label}: args = {tuple(got_args)!r}, in field order {tuple(want_args)!r}")
+        else:
+            wrong.append(f"{label}: args = {tuple(got_args)!r}, attributes {tuple(bound)!r}; specified args {tuple(want_args)!r}, attributes {tuple(want)!r}")
+    if permuted:
+        ctx.violation("R-ARGORDER", f"{IMPLEMENT_NEW}::cls.__new__::args-in-call-order", where, f"{name}: the SymPy args follow the order in which the caller spelt the arguments: " + "; ".join(permuted[:2]),
+                      "Cls(b=.., a=..) then has .args == (b, a): evaluate() unpacks `a, b = self.args` and computes with the values interchanged, while the named attributes still look right")
+    if wrong:
+        ctx.violation("R-ARGORDER", f"{IMPLEMENT_NEW}::cls.__new__::binding", where, f"{name}: the constructed instance does not carry the given values: " + "; ".join(wrong[:2]))
+    if not permuted and not wrong:
+        ctx.ok("R-ARGORDER", where, f"{name}: on {len(calls)} model calls (positional, keywords in reversed order, mixed, defaults in between) .args are the values of the SymPy fields in field-declaration order and every attribute is bound to its value")
+
+
+# ---------------------------------------------------------------------------- R-REBUILD
+def check_internal_rebuild(ctx: Check, tree: Tree) -> None:
+    """R-REBUILD (decorator): a method that @unevaluated installs on every class reconstructs an
+    instance only from the COMPLETE list of field values, never from `self.args` (SymPy arguments only) -
+    otherwise the copy carries the defaults of the non-SymPy attributes (phsp_factor=PhaseSpaceFactor,
+    name=None) and e.g. doit() of a width with a nested argument unfolds with another phase-space factor than the
+    one it was built with.  Decided on the model: every installed method is interpreted on a model instance with
+    a non-SymPy field whose SymPy arguments change under ``doit()``; every ``self.func(...)`` it calls must receive
+    one value per field."""
+    world = DecoratorWorld.of(tree)
+    n_checked = 0
+    for attr in ("_eval_subs", "_xreplace"):
+        rep = _model_hook(tree, attr)
+        if rep is None:
+            continue
+        n_checked += 1
+        key = f"{rep.name}::self.func from self.args"
+        ctx.verdict(not rep.partial_rebuilds, "R-REBUILD", key, rep.where,
+                    f"{rep.name}: every one of the {rep.n_rebuilds} reconstructions `self.func(...)` on the model instances receives one value per field",
+                    {"scenarios": rep.partial_rebuilds[:3], "why": "non-SymPy attributes of the rebuilt instance fall back to their defaults"} if rep.partial_rebuilds else None)
+    # the other installed methods (doit, _latex, ... - whatever the decorator installs on a class with an evaluate() and a LaTeX template)
+    sig = (True, False, True)
+    variants = [((), "plain class"), ((("_latex_repr_", "{a0} {a2}"),), "class with a _latex_repr_ template")]
+    seen: set[str] = set()
+    for extra, vlabel in variants:
+        cls = world.model_class(sig, extra=extra)
+        for attr, f in sorted(cls.installed.items(), key=lambda kv: kv[0]):  # type: ignore[attr-defined]
+            if attr in {"__new__", "_eval_subs", "_xreplace"} or not isinstance(f, _FuncRef):
+                continue
+            name, where = world.describe(f)
+            if name in seen:
+                continue
+            seen.add(name)
+            node = f.node if f.node is not None else f.fn.node
+            params = [a.arg for a in [*node.args.posonlyargs, *node.args.args]]
+            required = params[: len(params) - len(node.args.defaults)]
+            if not required:
+                continue
+            rebuilds: list[tuple] = []
+            values = []
+            for i, s in enumerate(sig):
+                val = MObj(f"a{i}", kinds={"expr"} if s else {"plain"}, open=False)
+                if s:
+                    val.attrs["doit"] = lambda a, k, i=i: MObj(f"a{i}.doit()", kinds={"expr"}, open=False)
+                    val.attrs["__iter__"] = _not_iterable
+                values.append(val)
+            me = MObj("self", {f"a{i}": x for i, x in enumerate(values)}, kinds={"expr"}, open=False)
+
+            def func(a, k, rebuilds=rebuilds):
+                rebuilds.append(tuple(a))
+                return MObj("self.func(" + ", ".join(map(repr, a)) + ")", {"evaluate": lambda a2, k2: MObj("rebuilt.evaluate()", {"doit": lambda a3, k3: MObj("unfolded", kinds={"expr"})}, kinds={"expr"}),
+                                                                              "doit": lambda a2, k2: MObj("rebuilt.doit()", kinds={"expr"})}, kinds={"expr"}, open=False)
+
+            me.attrs.update({"__class__": cls, "args": tuple(x for x, s in zip(values, sig) if s), "func": func, "__iter__": _not_iterable,
+                             "__super__": MObj("super()", {"_hashable_content": lambda a, k: ()}, open=False)})
+            me.attrs["_args"] = me.attrs["args"]
+            printer = MObj("printer", {"_print": lambda a, k: f"<{a[0]!r}>", "doprint": lambda a, k: f"<{a[0]!r}>"}, open=False)
+            extra_args = {"doit": [[], [True], [False]], "_latex": [[printer]], "_numpycode": [[printer]], "_sympystr": [[printer]]}.get(attr)
+            if extra_args is None:
+                if len(required) > 1:
+                    if _mentions_reconstruction(tree, f):
+                        raise AnalysisError(f"installed method cls.{attr} = {name}: reconstructs instances, but the rule has no model call for its parameters {required[1:]}")
+                    ctx.info("R-REBUILD", where, f"cls.{attr} = {name.split('::')[-1]}: never reconstructs an instance (no .func / type(self) / __class__ in reach)")
+                    continue
+                extra_args = [[]]
+            for more in extra_args:
+                ex = world.exec()
+                _interpret(f"cls.{attr}", lambda ex=ex, f=f, more=more: ex.apply(f, [me, *more], {}))
+            n_checked += 1
+            partial = [r for r in rebuilds if len(r) < len(sig)]
+            ctx.verdict(not partial, "R-REBUILD", f"{name}::self.func from self.args", where,
+                        f"cls.{attr} = {name.split('::')[-1]} ({vlabel}): " + (f"{len(rebuilds)} reconstruction(s) `self.func(...)` on the model instance, each with one value per field" if rebuilds else "does not reconstruct the instance"),
+                        {"rebuilt_with": [repr(r) for r in partial[:2]], "fields": list(_sig(sig).split(", ")), "why": "non-SymPy attributes of the rebuilt instance fall back to their defaults"} if partial else None)
+    if n_checked < 2:
+        raise AnalysisError(f"only {n_checked} installed methods could be interpreted for R-REBUILD (the two substitution hooks and doit confirmed)")
+
+
+def _mentions_reconstruction(tree: Tree, f: _FuncRef) -> bool:
+    nodes = [f.node if f.node is not None else f.fn.node]
+    if f.fn is not None:
+        from ..rules import reach_functions
+
+        nodes = [g.node for g, _ in reach_functions(tree, f.fn, depth=3)]
+    for node in nodes:
+        for n in ast.walk(node):
+            if isinstance(n, ast.Attribute) and n.attr in {"func", "__class__", "__new__"}:
+                return True
+            if isinstance(n, ast.Call) and isinstance(n.func, ast.Name) and n.func.id == "type":
+                return True
+    return False
 
 
 def count_nested_constructions(tree: Tree) -> list[str]:
+    """Construction sites where an argument of an expression class is itself the construction of one - directly, through
+    a local that holds it, a starred tuple of a helper, or a helper that returns it (CallInliner)."""
+    from ..inline import CallInliner
+
     classes = set(expression_classes(tree)) | set(handwritten_expr_classes(tree))
     out = []
     for q, fn in tree.funcs.items():
         if not q.startswith("ampform"):
             continue
+        inl = None
         for call, callee in tree.calls_in(fn, nested=False):
             if callee in classes:
                 for a in [*call.args, *[k.value for k in call.keywords]]:
-                    if isinstance(a, ast.Call) and tree.callee(a, fn) in classes:
+                    a = a.value if isinstance(a, ast.Starred) else a
+                    if not isinstance(a, ast.Call):
+                        if inl is None:
+                            top = fn
+                            while top.outer is not None:
+                                top = top.outer
+                            try:
+                                inl = CallInliner(tree, top)
+                            except Exception:  # noqa: BLE001
+                                inl = False
+                        if inl:
+                            try:
+                                a = inl.expr(a)
+                            except Exception:  # noqa: BLE001
+                                pass
+                    hit = False
+                    for sub in ([a] if isinstance(a, ast.Call) else a.elts if isinstance(a, (ast.Tuple, ast.List)) else []):
+                        if isinstance(sub, ast.Call) and getattr(sub, "_module", None) is not None and tree.callee(sub, tree.func_of(sub) or fn) in classes:
+                            hit = True
+                    if hit:
                         out.append(f"{tree.loc(call)} {unparse(call)[:70]}")
                         break
     return out
@@ -679,8 +1010,8 @@ def run(ctx: Check, tree: Tree) -> None:
         "reconstruction hooks (_eval_subs, _xreplace) installed by @unevaluated read arguments shallowly and completely (R-SHALLOW/R-COMPLETE)",
         "the substitution hooks visit every argument whenever the rule is non-empty; no pre-filter by free symbols (R-DESCEND)",
         "generated-code templates never put an unparenthesised printed sub-expression next to a tighter-binding operator (R-PREC)",
-        "every `... = self.args` unpacking matches the class's SymPy field list in count and position (R-ARITY)",
-        "_hashable_content hook is installed unconditionally and covers the non-SymPy fields (R-HASH)",
+        "every positional use of `self.args` (unpacking, `*self.args` into a helper, `self.args[k]`) matches the class's SymPy field list in count and position (R-ARITY)",
+        "_hashable_content hook is installed for every class with non-SymPy fields and covers them (R-HASH)",
         "_eval_subs/_xreplace hooks are installed whenever a class has non-SymPy fields (R-HOOKS)",
         "classes that both unfold and print themselves print through their unfolding (R-ONEDEF)",
     ]
@@ -692,6 +1023,7 @@ def run(ctx: Check, tree: Tree) -> None:
     ctx.assumptions += [
         "dataclasses.astuple/asdict recurse into nested dataclass instances; copy.deepcopy copies (CPython documentation)",
         "sympy Basic.subs/xreplace call _eval_subs/_xreplace and rebuild with self.func(*args)",
+        "decorators on the functions that @unevaluated installs (functools.wraps, signature editing) do not change what the function returns",
     ]
     classes = expression_classes(tree)
     if len(classes) < MIN_CLASSES:
@@ -706,76 +1038,15 @@ def run(ctx: Check, tree: Tree) -> None:
         raise AnalysisError(f"only {len(nested)} nested expression constructions found (confirmed {MIN_NESTED}+)")
     ctx.info("R-SHALLOW", nested[0].split()[0], f"{len(nested)} nested expression-class constructions, e.g. {nested[0]}")
 
+    # ---- which hooks are installed for which class (R-HOOKS, R-HASH)
+    ctx.section(check_installed_hooks, ctx, tree)
     # ---- R-SHALLOW on the substitution hooks
     ctx.section(check_shallow_hooks, ctx, tree, ["_eval_subs", "_xreplace"], need_complete=True)
-
-    # ---- hooks installed under the right condition
-    hooks = installed_hooks(tree)
-    impl = tree.func(IMPLEMENT_NEW)
-    if "_hashable_content" not in hooks:
-        ctx.violation(
-            "R-HASH",
-            f"{IMPLEMENT_NEW}::missing _hashable_content",
-            tree.loc(impl.node),
-            "no _hashable_content hook: equality and hash ignore the non-SymPy attributes",
-        )
-    else:
-        value, cond, resolved = hooks["_hashable_content"]
-        key = f"{IMPLEMENT_NEW}::cls._hashable_content"
-        if resolved not in tree.funcs:
-            raise AnalysisError(f"_hashable_content hook {unparse(value)} unresolved")
-        fn = tree.funcs[resolved]
-        # what the hook returns is read off a model instance (two SymPy fields, three non-SymPy fields):
-        # helper functions, generator vs list vs map() make no difference
-        content = ctx.section(hashable_content_model, tree, fn)
-        missing, wrapped_sympy, has_super = (content["missing"], content["wrapped_sympy"], content["has_super"]) if content is not None else ([], [], True)
-        if cond:
-            ctx.violation("R-HASH", key + "::conditional", tree.loc(value), "the _hashable_content hook is only installed under a condition")
-        elif missing and not wrapped_sympy:
-            ctx.violation(
-                "R-HASH",
-                key + "::no-fields",
-                tree.loc(fn.node),
-                f"{fn.qual} does not return the values of the non-SymPy fields: instances that differ only in a non-SymPy attribute compare equal",
-            )
-        elif missing:
-            ctx.violation(
-                "R-HASH",
-                key + "::filter",
-                tree.loc(fn.node),
-                f"{fn.qual} keeps the values of the fields {wrapped_sympy} and drops {missing}: non-SymPy fields are not the ones kept",
-            )
-        elif not has_super:
-            ctx.violation("R-HASH", key + "::no-super", tree.loc(fn.node), f"{fn.qual} drops the class/args part of the hashable content")
-        elif content is not None:
-            ctx.ok("R-HASH", tree.loc(value), f"cls._hashable_content = {unparse(value)}: unconditional, returns super content + getattr over non-SymPy fields")
-        ctx.section(check_content_injective, ctx, tree, fn)
+    if "_hashable_content" in (ctx.section(installed_by_model, tree) or {}):
+        ctx.section(check_hash_content, ctx, tree)
+        ctx.section(check_content_injective, ctx, tree)
     n_nonsympy = sum(1 for c in classes.values() if c.non_sympy_fields)
     ctx.stats["classes_with_non_sympy_fields"] = n_nonsympy
-    for attr in ("_eval_subs", "_xreplace"):
-        if attr in hooks:
-            value, cond, _ = hooks[attr]
-            if cond:
-                # the guarding condition must be (derived from) "has non-sympy fields"
-                guard = next(a for a in _ancestors(value) if isinstance(a, ast.If))
-                gtxt = unparse(guard.test)
-                rd_ok = "non_sympy" in gtxt or "sympify" in gtxt
-                negated = isinstance(guard.test, ast.UnaryOp) and isinstance(guard.test.op, ast.Not)
-                in_else = not any(value is n for st in guard.body for n in ast.walk(st))
-                if negated != in_else:
-                    rd_ok = False
-                elif not rd_ok:
-                    # look at the definition of the tested name
-                    rd_ok = _guard_is_nonsympy(tree, impl, guard.test)
-                ctx.verdict(
-                    rd_ok,
-                    "R-HOOKS",
-                    f"{IMPLEMENT_NEW}::cls.{attr}::guard",
-                    tree.loc(guard),
-                    f"cls.{attr} installed under `if {gtxt}` ({n_nonsympy} classes have non-SymPy fields)",
-                )
-            else:
-                ctx.ok("R-HOOKS", tree.loc(value), f"cls.{attr} installed unconditionally")
 
     ctx.section(check_descent, ctx, tree)
     ctx.section(check_arg_order, ctx, tree)
@@ -788,58 +1059,11 @@ def run(ctx: Check, tree: Tree) -> None:
 
     ctx.section(check_reentrant_new, ctx, tree)  # "reproduced by rebuilding it from its own arguments" for the array helper classes
     ctx.section(check_precedence, ctx, tree, prefixes=("ampform",))
-
-    # ---- R-ARITY
-    n_unpack = 0
-    for q, cls in classes.items():
-        for mname, m in cls.info.methods.items():
-            for st, elts, _through_map in self_args_unpackings(m):
-                n_unpack += 1
-                problem = check_arity(cls, elts)
-                ctx.verdict(
-                    problem is None,
-                    "R-ARITY",
-                    f"{m.qual}::{unparse(st.targets[0])} = self.args",
-                    tree.loc(st),
-                    f"{cls.name}.{mname}: {unparse(st)[:90]}",
-                    problem,
-                )
-    ctx.stats["self_args_unpack_sites"] = n_unpack
-    if n_unpack < MIN_UNPACK:
-        raise AnalysisError(f"only {n_unpack} `= self.args` unpack sites found (confirmed {MIN_UNPACK}+)")
+    ctx.section(check_arity, ctx, tree, classes)
 
     # ---- self.<attr> inside methods of decorated classes must exist (field, method, class attr)
     ctx.section(check_field_access, ctx, tree, classes)
-
-    # ---- R-ONEDEF
-    n_onedef = 0
-    for q, cls in classes.items():
-        ev, npc = cls.method("evaluate"), cls.method("_numpycode")
-        if ev is None or npc is None:
-            continue
-        n_onedef += 1
-        ok = False
-        for node in walk_function(npc.node):
-            if isinstance(node, ast.Return) and node.value is not None:
-                v = node.value
-                ok = (
-                    isinstance(v, ast.Call)
-                    and isinstance(v.func, ast.Attribute)
-                    and v.func.attr in {"_print", "doprint"}
-                    and v.args
-                    and _derives_from_evaluate(npc, v.args[0])
-                )
-        ctx.verdict(
-            ok,
-            "R-ONEDEF",
-            f"{npc.qual}::prints-evaluate",
-            tree.loc(npc.node),
-            f"{cls.name} defines evaluate() and _numpycode(): _numpycode must print self.evaluate()",
-            None if ok else "two independent definitions of one quantity (folded code may differ from unfolded code)",
-        )
-    ctx.stats["onedef_instances"] = n_onedef
-    if n_onedef < 3:
-        raise AnalysisError(f"only {n_onedef} classes with both evaluate and _numpycode (confirmed 3)")
+    ctx.section(check_one_definition, ctx, tree, classes)
 
     # ---- advisory: commutative=False has no effect
     dec = tree.func("ampform.sympy._decorator::unevaluated")
@@ -853,43 +1077,145 @@ def run(ctx: Check, tree: Tree) -> None:
             )
 
 
-def _ancestors(node):
-    from ..loader import ancestors
+# ---------------------------------------------------------------------------- R-ARITY
+def check_arity(ctx: Check, tree: Tree, classes) -> None:  # noqa: F811 - the rule (rules.check_arity is the comparison it uses)
+    """R-ARITY over every positional use of ``self.args`` in a method of a decorated class:
+    * ``a, b, c = <self.args, element by element>`` (``self.args``, ``map(f, self.args)``, a comprehension over it, a
+      helper that returns one): as many targets as SymPy fields; a target named like a field sits at its position;
+    * ``helper(*self.args, ...)``: the helper binds the SymPy fields to its leading parameters - it must accept
+      exactly that many positionally, and a parameter named like a field sits at its position;
+    * ``self.args[k]``: k is a valid index; ``<field name> = self.args[k]`` reads that field's position."""
+    from ..rules import check_arity as arity_problem
 
-    return ancestors(node)
+    n_sites = 0
+    for q, cls in classes.items():
+        fields = [f.name for f in cls.sympy_fields]
+        for mname, m in cls.info.methods.items():
+            for st, elts, _through_map in self_args_unpackings(m, tree):
+                n_sites += 1
+                problem = arity_problem(cls, elts)
+                ctx.verdict(problem is None, "R-ARITY", f"{m.qual}::{unparse(st.targets[0])} = self.args", tree.loc(st), f"{cls.name}.{mname}: {unparse(st)[:90]}", problem)
+            for call, callee, n_before in args_star_calls(tree, m):
+                n_sites += 1
+                problem = _star_call_problem(callee, n_before, fields)
+                key = f"{m.qual}::{callee.qual.split('::')[-1]}(*self.args)"
+                ctx.verdict(problem is None, "R-ARITY", key, tree.loc(call), f"{cls.name}.{mname}: {unparse(call)[:90]} binds the SymPy fields {fields} to the leading parameters of {callee.qual.split('::')[-1]}", problem)
+            for node, index, target in args_index_reads(m):
+                n_sites += 1
+                problem = None
+                pos = index if index >= 0 else len(fields) + index
+                if not 0 <= pos < len(fields):
+                    problem = f"self.args[{index}] but the class has {len(fields)} SymPy fields {fields}"
+                elif target in fields and fields.index(target) != pos:
+                    problem = f"'{target}' is read from position {pos} but field '{target}' is at position {fields.index(target)} of {fields}"
+                ctx.verdict(problem is None, "R-ARITY", f"{m.qual}::self.args[{index}]" + (f"->{target}" if target in fields else ""), tree.loc(node), f"{cls.name}.{mname}: {unparse(node)[:60]}", problem)
+    ctx.stats["self_args_unpack_sites"] = n_sites
+    if n_sites < MIN_UNPACK:
+        raise AnalysisError(f"only {n_sites} positional uses of `self.args` found in the decorated classes (confirmed {MIN_UNPACK}+)")
 
 
-def _guard_is_nonsympy(tree: Tree, impl, test: ast.AST) -> bool:
-    from ..dataflow import RD
+def _star_call_problem(callee, n_before: int, fields: list[str]) -> str | None:
+    a = callee.node.args
+    pos = [p.arg for p in [*a.posonlyargs, *a.args]]
+    if callee.cls is not None and pos[:1] in (["self"], ["cls"]) and not any(unparse(d).split(".")[-1] == "staticmethod" for d in callee.node.decorator_list):
+        pos = pos[1:]
+    need = n_before + len(fields)
+    n_required = len(pos) - len(a.defaults)
+    if need > len(pos) and a.vararg is None:
+        return f"{callee.name} accepts {len(pos)} positional arguments but receives {need}"
+    if need < n_required:
+        # the remaining required parameters may be given by keyword at the call site: only name positions are judged below
+        pass
+    for i, f in enumerate(fields):
+        at = n_before + i
+        if at < len(pos) and pos[at] != f and f in pos:
+            return f"field '{f}' (position {i} of self.args) is bound to parameter '{pos[at]}', but {callee.name} has a parameter '{f}' at position {pos.index(f)}"
+    return None
 
-    rd = RD(impl.node)
-    for d in rd.closure(rd.uses(test)):
-        if d.value is not None:
-            txt = unparse(d.value)
-            if "not _is_sympify" in txt or "not f.metadata" in txt or "sympify" in txt and "not" in txt:
-                return True
-    return False
+
+# ---------------------------------------------------------------------------- R-ONEDEF
+def check_one_definition(ctx: Check, tree: Tree, classes) -> None:
+    """R-ONEDEF: a class that both unfolds (evaluate) and prints itself (_numpycode) prints THROUGH its unfolding:
+    every value _numpycode returns is what the printer makes of ``self.evaluate()`` / ``self.doit()``."""
+    n_onedef = 0
+    undecided = []
+    for q, cls in classes.items():
+        ev, npc = cls.method("evaluate"), cls.method("_numpycode")
+        if ev is None or npc is None:
+            continue
+        n_onedef += 1
+        # first by interpretation: on a model instance whose unfolding prints as one mark, _numpycode must return exactly that mark
+        run = interpret_printer(tree, npc)
+        result = run["result"] if run is not None else None
+        if isinstance(result, str) and result.strip() == "\x00unfolded\x01":
+            verdicts = [("through", "")]
+        elif isinstance(result, str) and "\x00unfolded\x01" not in result and result.strip():
+            verdicts = [("independent", result)]
+        else:
+            verdicts = _printer_returns(tree, npc, npc.params[1] if len(npc.params) > 1 else "printer", 0)
+        key = f"{npc.qual}::prints-evaluate"
+        what = f"{cls.name} defines evaluate() and _numpycode(): _numpycode must print self.evaluate()"
+        if verdicts and all(v == "through" for v, _ in verdicts):
+            ctx.ok("R-ONEDEF", tree.loc(npc.node), what)
+        elif any(v == "independent" for v, _ in verdicts):
+            ctx.violation("R-ONEDEF", key, tree.loc(npc.node), what, "two independent definitions of one quantity (folded code may differ from unfolded code)")
+        else:
+            undecided.append(f"{npc.qual}: cannot tell whether `{next((t for v, t in verdicts if v == 'unknown'), 'no return')[:60]}` prints the unfolding")
+    ctx.stats["onedef_instances"] = n_onedef
+    if undecided:
+        raise AnalysisError("; ".join(undecided))
+    if n_onedef < 1:
+        raise AnalysisError("no class with both evaluate and _numpycode found (3 confirmed)")
 
 
-def _derives_from_evaluate(fn, expr: ast.AST) -> bool:
-    from ..dataflow import RD
+def _printer_returns(tree: Tree, fn, printer: str, depth: int) -> list[tuple[str, str]]:
+    """(verdict, text) for every value a printer method returns; a value that is produced by a helper method of the
+    same object (``return self._code(printer)``) is judged by what the helper returns."""
+    from ..inline import Inliner
 
-    def is_eval_call(n):
-        return (
-            isinstance(n, ast.Call)
-            and isinstance(n.func, ast.Attribute)
-            and n.func.attr in {"evaluate", "doit"}
-            and isinstance(n.func.value, ast.Name)
-            and n.func.value.id == "self"
-        )
+    inl = Inliner(fn.node)
+    out = []
+    for r in [n for n in walk_function(fn.node, nested=False) if isinstance(n, ast.Return) and n.value is not None]:
+        v = inl.expr(r.value)
+        verdict = _prints_evaluate(v, printer)
+        if verdict == "unknown" and depth < 3 and isinstance(v, ast.Call) and isinstance(v.func, ast.Attribute) and isinstance(v.func.value, ast.Name) and v.func.value.id == "self" \
+                and fn.cls is not None and not any(_is_self_unfolding(n) for n in ast.walk(v)):
+            helper = tree.lookup_method(fn.cls, v.func.attr)
+            if helper is not None and helper is not fn:
+                pos = next((i for i, a in enumerate(v.args) if isinstance(a, ast.Name) and a.id == printer), None)
+                kw = next((k.arg for k in v.keywords if isinstance(k.value, ast.Name) and k.value.id == printer), None)
+                hp = kw or (helper.params[pos + 1] if pos is not None and len(helper.params) > pos + 1 else None)
+                if hp is not None:
+                    out += _printer_returns(tree, helper, hp, depth + 1)
+                    continue
+        out.append((verdict, unparse(r.value)))
+    return out
 
-    if any(is_eval_call(n) for n in ast.walk(expr)):
-        return True
-    rd = RD(fn.node)
-    for d in rd.closure(rd.uses(expr)):
-        if d.value is not None and any(is_eval_call(n) for n in ast.walk(d.value)):
-            return True
-    return False
+
+def _is_self_unfolding(n: ast.AST) -> bool:
+    return (isinstance(n, ast.Call) and isinstance(n.func, ast.Attribute) and n.func.attr in {"evaluate", "doit"}
+            and isinstance(n.func.value, ast.Name) and n.func.value.id == "self")
+
+
+def _prints_evaluate(v: ast.AST, printer: str) -> str:
+    """'through' (the printer applied to self.evaluate()/doit()), 'independent' (generated code that does not go
+    through the unfolding: a string template, the printer applied to fields), 'unknown'."""
+    if isinstance(v, ast.IfExp):
+        a, b = _prints_evaluate(v.body, printer), _prints_evaluate(v.orelse, printer)
+        return a if a == b else "independent" if "independent" in (a, b) else "unknown"
+    if isinstance(v, ast.Call) and isinstance(v.func, ast.Attribute) and isinstance(v.func.value, ast.Name) and v.func.value.id == printer and v.args:
+        a0 = v.args[0]
+        if _is_self_unfolding(a0) or (isinstance(a0, ast.Call) and isinstance(a0.func, ast.Attribute) and a0.func.attr == "doit" and _is_self_unfolding(a0.func.value)):
+            return "through"
+        if any(_is_self_unfolding(n) for n in ast.walk(a0)):
+            return "unknown"  # something computed from the unfolding
+        return "independent"
+    if isinstance(v, (ast.JoinedStr, ast.Constant)) or (isinstance(v, ast.BinOp) and isinstance(v.op, (ast.Add, ast.Mod))) or \
+            (isinstance(v, ast.Call) and isinstance(v.func, ast.Attribute) and v.func.attr in {"format", "join"}):
+        if any(_is_self_unfolding(n) for n in ast.walk(v)):
+            return "unknown"
+        return "independent"
+    return "unknown"
 
 
 def check_field_access(ctx: Check, tree: Tree, classes) -> None:
@@ -915,11 +1241,28 @@ def check_field_access(ctx: Check, tree: Tree, classes) -> None:
                     n += 1
                     if node.attr in known or node.attr in sympy_attrs or node.attr.startswith("_"):
                         continue
+                    # positive evidence of a misspelt field: the name is a near-miss of a declared field (an attribute of the
+                    # external SymPy base that the rule does not know is not a violation)
+                    near = [f for f in sorted(known) if _near_miss(node.attr, f)]
+                    if not near:
+                        ctx.info("R-FIELD", tree.loc(node), f"{cls.name}.{mname} reads self.{node.attr}: not a field of the class (an attribute of the SymPy base class is assumed)")
+                        continue
                     ctx.violation(
                         "R-FIELD",
                         f"{m.qual}::self.{node.attr}",
                         tree.loc(node),
-                        f"{cls.name}.{mname} reads self.{node.attr}, which is neither a field {sorted(f.name for f in cls.fields)} nor a class attribute",
+                        f"{cls.name}.{mname} reads self.{node.attr}, which is neither a field {sorted(f.name for f in cls.fields)} nor a class attribute (a near-miss of `{near[0]}`)",
                     )
     ctx.stats["self_attr_reads_checked"] = n
     ctx.ok("R-FIELD", "src/ampform", f"{n} `self.<attr>` reads in evaluate/as_explicit/printers name an existing field or attribute") if n else None
+
+
+def _near_miss(a: str, b: str) -> bool:
+    """Edit distance 1 (one substitution, insertion, deletion or transposition) between two identifiers of length >= 4."""
+    if a == b or min(len(a), len(b)) < 4 or abs(len(a) - len(b)) > 1:
+        return False
+    if len(a) == len(b):
+        diff = [i for i in range(len(a)) if a[i] != b[i]]
+        return len(diff) == 1 or (len(diff) == 2 and diff[1] == diff[0] + 1 and a[diff[0]] == b[diff[1]] and a[diff[1]] == b[diff[0]])
+    s, t = (a, b) if len(a) < len(b) else (b, a)
+    return any(t[:i] + t[i + 1:] == s for i in range(len(t)))
